@@ -10,7 +10,8 @@
    if/while/case arm is the same statement at the position with a child line context on top (`pos_child`,
    `child_run` crosses from the frame of the header line to the frame of its child lines and back).  `Plist`
    is the statement-list loop of a block (generic in the kind of the block), `Parms` the loop over the arms
-   of a case statement. *)
+   of a case statement, `Phand` the loop over the handlers of an except block.  Tokens: while the pass index is k the
+   state holds `mix k` (final types before k, lexed types from k on); `on` is the one re-typed token so far. *)
 From PasfmtVerif Require Import Model.Fragment Model.DirectiveTree Proofs.DirectiveTreeProofs Proofs.ParserKernelProofs Proofs.ParserGrammarProofs
   Proofs.ParserGrammarTypesProofs Proofs.ParserGrammarCoverProofs Proofs.ParserGrammarEofProofs.
 Local Open Scope nat_scope.
@@ -20,7 +21,7 @@ Definition plain (t : RawTokenType) : Prop :=
   | RTT_Identifier | RTT_Op OK_Semicolon | RTT_Op OK_Assign | RTT_Op OK_Dot | RTT_Keyword KK_Begin | RTT_Keyword KK_End
   | RTT_Keyword KK_Repeat | RTT_Keyword KK_Until | RTT_Keyword KK_Try | RTT_Keyword KK_Finally | RTT_Keyword KK_Except
   | RTT_Keyword KK_If | RTT_Keyword KK_Then | RTT_Keyword KK_Else | RTT_Keyword KK_While | RTT_Keyword KK_Do
-  | RTT_Keyword KK_Case | RTT_Keyword KK_Of | RTT_Op OK_Colon | RTT_Eof => True
+  | RTT_Keyword KK_Case | RTT_Keyword KK_Of | RTT_Op OK_Colon | RTT_IdentifierOrKeyword KK_On | RTT_Keyword KK_On | RTT_Eof => True
   | _ => False
   end.
 
@@ -41,7 +42,7 @@ Qed.
 
 Ltac len_tac := repeat (first [rewrite app_length | rewrite map_length | progress cbn [length]]); lia.
 Scheme stmt_mut := Induction for stmt Sort Prop with stmts_mut := Induction for stmts Sort Prop
-  with arms_mut := Induction for arms Sort Prop.
+  with arms_mut := Induction for arms Sort Prop with handlers_mut := Induction for handlers Sort Prop.
 
 (* the lines of the arms of a case statement (Fragment.arms_lines) split at the `end`/`else` line: the lines
    before it, the index of that line, and the child lines owed by the last arm *)
@@ -96,6 +97,29 @@ Definition restv (s : pstate) :=
    (ps_paren pass s, ps_brack pass s, ps_generic pass s), ps_attr pass s, ps_err pass s).
 Definition levels := (N * N * N)%type.
 
+(* the tokens the parser re-types (contextual keywords in keyword position): `fin` is the final type; while the
+   pass index is k the tokens before k have their final types, the tokens from k on are as lexed *)
+Definition fin (t : RawTokenType) : RawTokenType := retype t.
+Definition mix (r : nat) : list RawTokenType := map fin (firstn r T) ++ skipn r T.
+Definition tokfin (k : nat) : Prop := exists t, nth_error T k = Some t /\ fin t = t.
+Lemma tokfin_lt k : tokfin k -> k < n.
+Proof. intros (t & H & _). apply nth_error_Some. congruence. Qed.
+Lemma mix_nth_ge r i : r <= i -> nth_error (mix r) i = nth_error T i.
+Proof.
+  intros H. unfold mix. rewrite <- (firstn_skipn r T) at 3.
+  assert (Hl : length (firstn r T) <= i) by (rewrite firstn_length; lia).
+  rewrite !nth_error_app2 by (rewrite ?map_length; exact Hl). rewrite map_length. reflexivity.
+Qed.
+Lemma fin_plain t : plain t -> plain (fin t).
+Proof. destruct t as [o| |k0|k0| | | | | | |]; try exact (fun H => H). destruct k0; exact (fun H => H). Qed.
+Lemma mix_step k : tokfin k -> mix (S k) = mix k.
+Proof.
+  intros (t & Ht & Hf). unfold mix. revert k Ht. generalize T as l.
+  induction l as [|a l IH]; intros [|k] Ht; cbn in Ht; try discriminate.
+  - injection Ht as ->. cbn. rewrite Hf. reflexivity.
+  - cbn [firstn skipn map app]. f_equal. apply IH, Ht.
+Qed.
+
 (* the frame: the rest of the current_line stack below the current line, and the parent of the child line
    context we are in (None outside child lines); both are constant along a statement list *)
 Section Frame.
@@ -107,11 +131,11 @@ Variable par : option (nat * nat).
 Definition ST (s : pstate) (k : nat) (L : list (list nat)) (c : list nat) (M : list lmeta) (mc : lmeta) (last : nat)
            (cx : list (pctx * bool)) (lv : levels) (at_ : list nat) : Prop :=
   kst pass s = mkK (L ++ [c]) (length L :: stk) k last /\ metas pass s = M ++ [mc] /\ length M = length L
-  /\ restv s = (T, cx, [], false, lv, at_, None).
+  /\ restv s = (mix k, cx, [], false, lv, at_, None).
 
 Lemma ST_err s k L c M mc last cx lv a : ST s k L c M mc last cx lv a -> has_err pass s = false.
 Proof. intros (_ & _ & _ & R). unfold restv in R. unfold has_err. injection R as _ _ _ _ _ _ E. rewrite E. reflexivity. Qed.
-Lemma ST_toks s k L c M mc last cx lv a : ST s k L c M mc last cx lv a -> ps_toks pass s = T.
+Lemma ST_toks s k L c M mc last cx lv a : ST s k L c M mc last cx lv a -> ps_toks pass s = mix k.
 Proof. intros (_ & _ & _ & R). unfold restv in R. congruence. Qed.
 Lemma ST_ctx s k L c M mc last cx lv a : ST s k L c M mc last cx lv a -> ps_ctx pass s = cx.
 Proof. intros (_ & _ & _ & R). unfold restv in R. congruence. Qed.
@@ -135,8 +159,8 @@ Lemma ST_cur_tt s k L c M mc last cx lv a t : ST s k L c M mc last cx lv a -> nt
 Proof.
   intros H Ht. assert (Hk : k < n) by (apply nth_error_Some; congruence).
   pose proof (ST_toks _ _ _ _ _ _ _ _ _ _ H) as Tk.
-  unfold cur_tt, idx0. rewrite (ST_cur_index _ _ _ _ _ _ _ _ _ _ H Hk). unfold tt_at. rewrite Tk, Ht.
-  destruct t; cbn [bind]; try reflexivity; exact Ht.
+  unfold cur_tt, idx0. rewrite (ST_cur_index _ _ _ _ _ _ _ _ _ _ H Hk). unfold tt_at. rewrite Tk, (mix_nth_ge k k (le_n k)), Ht.
+  destruct t; cbn [bind]; try reflexivity; rewrite (mix_nth_ge k k (le_n k)); exact Ht.
 Qed.
 Lemma ST_cur_tt_end s k L c M mc last cx lv a : ST s k L c M mc last cx lv a -> n <= k -> cur_tt pass s = None.
 Proof. intros H Hk. apply cur_tt_past_end. rewrite seq_length, (ST_pidx _ _ _ _ _ _ _ _ _ _ H). exact Hk. Qed.
@@ -162,9 +186,9 @@ Proof. intros E. unfold p_emit, guard. rewrite E. unfold metas. cbn [ps_core set
 
 (* next_token on a token of the fragment *)
 Lemma next_token_ST s k L c M mc last cx lv a :
-  ST s k L c M mc last cx lv a -> k < n -> ST (next_token pass s) (S k) L (c ++ [k]) M mc last cx lv a.
+  ST s k L c M mc last cx lv a -> tokfin k -> ST (next_token pass s) (S k) L (c ++ [k]) M mc last cx lv a.
 Proof.
-  intros H Hk. pose proof (ST_err _ _ _ _ _ _ _ _ _ _ H) as E.
+  intros H Hkf. pose proof (tokfin_lt k Hkf) as Hk. pose proof (ST_err _ _ _ _ _ _ _ _ _ _ H) as E.
   destruct (nth_error T k) as [t|] eqn:Et; [|apply nth_error_None in Et; lia].
   pose proof (plain_nth _ _ Et) as P.
   assert (B : next_token_body pass s = p_emit pass KT lm0 s).
@@ -178,7 +202,7 @@ Proof.
       rewrite (nth_error_seq0 _ _ Hk). rewrite upd_nth_app_last. reflexivity.
     - rewrite (metas_p_emit _ _ _ E). exact Mt.
     - exact Ml.
-    - rewrite restv_p_emit. exact R. }
+    - rewrite restv_p_emit, (mix_step k Hkf). exact R. }
   unfold next_token. replace (remaining pass s + 2) with (S (remaining pass s + 1)) by lia.
   cbn [next_token_go]. rewrite E, B. rewrite (ST_not_inline _ _ _ _ _ _ _ _ _ _ S1). exact S1.
 Qed.
@@ -227,14 +251,20 @@ Proof.
 Qed.
 
 (* no token of the fragment is a portability keyword candidate: consolidate_portability_directives changes nothing *)
-Lemma portability_go_noop : forall li (s : pstate), ps_toks pass s = T -> portability_go pass li s = s.
+Lemma mix_plain r : Forall plain (mix r).
+Proof.
+  unfold mix. pose proof Tplain as TP. rewrite <- (firstn_skipn r T) in TP. apply Forall_app in TP. destruct TP as [P1 P2].
+  apply Forall_app. split; [|exact P2]. apply Forall_map. eapply Forall_impl; [intros a Ha; apply fin_plain, Ha|exact P1].
+Qed.
+Lemma portability_go_noop : forall li (s : pstate), Forall plain (ps_toks pass s) -> portability_go pass li s = s.
 Proof.
   induction li as [|p IH]; intros s Tk; cbn [portability_go]; (destruct (nth_error (cur_toks pass s) _) as [ti|]; [|reflexivity]); cbv zeta.
   all: repeat match goal with |- (if ?c then _ else _) = _ => destruct c; [reflexivity|] end.
-  all: unfold tt_at; rewrite Tk; destruct (nth_error T ti) as [t|] eqn:E; try reflexivity; try (apply IH, Tk).
-  all: pose proof (plain_nth _ _ E) as P; destruct t; try contradiction; try reflexivity; try (apply IH, Tk).
+  all: unfold tt_at; destruct (nth_error (ps_toks pass s) ti) as [t|] eqn:E; try reflexivity; try (apply IH, Tk).
+  all: pose proof (proj1 (Forall_forall _ _) Tk t (nth_error_In _ _ E)) as P; destruct t as [o| |k0|k0| | | | | | |]; try contradiction; try reflexivity; try (apply IH, Tk).
+  all: destruct k0; try contradiction; try reflexivity; try (apply IH, Tk).
 Qed.
-Lemma portability_noop_G (s : pstate) : ps_toks pass s = T -> consolidate_portability_directives pass s = s.
+Lemma portability_noop_G (s : pstate) : Forall plain (ps_toks pass s) -> consolidate_portability_directives pass s = s.
 Proof.
   intros Tk. unfold consolidate_portability_directives.
   destruct (cur_toks pass s) as [|t0 r] eqn:Ec; [unfold cur_line_tts; rewrite Ec; reflexivity|].
@@ -245,7 +275,7 @@ Proof.
 Qed.
 Lemma portability_noop s k L c M mc last cx lv a :
   ST s k L c M mc last cx lv a -> consolidate_portability_directives pass s = s.
-Proof. intros H. apply portability_noop_G, (ST_toks _ _ _ _ _ _ _ _ _ _ H). Qed.
+Proof. intros H. apply portability_noop_G. rewrite (ST_toks _ _ _ _ _ _ _ _ _ _ H). apply mix_plain. Qed.
 Lemma inline_noop s f : is_inline_comment (cur_tt pass s) = false -> inline_comments_go pass (S f) s = s.
 Proof.
   intros H. cbn [inline_comments_go]. destruct (has_err pass s); [reflexivity|].
@@ -297,40 +327,55 @@ Qed.
 (* ---------------- general versions (any line-stack shape), for take_separators_on_last_line *)
 Lemma cur_index_G (s : pstate) k : pidx pass s = k -> k < n -> cur_index pass s = Some k.
 Proof. intros P Hk. unfold cur_index. rewrite P. apply nth_error_seq0, Hk. Qed.
-Lemma cur_tt_G (s : pstate) k t : ps_toks pass s = T -> pidx pass s = k -> nth_error T k = Some t ->
+Lemma cur_tt_G (s : pstate) Tc k t : ps_toks pass s = Tc -> pidx pass s = k -> k < n -> nth_error Tc k = Some t ->
   cur_tt pass s = match t with RTT_Eof => None | _ => Some t end.
 Proof.
-  intros Tk P Ht. assert (Hk : k < n) by (apply nth_error_Some; congruence).
+  intros Tk P Hk Ht.
   unfold cur_tt, idx0. rewrite (cur_index_G s k P Hk). unfold tt_at. rewrite Tk, Ht.
   destruct t; cbn [bind]; try reflexivity; exact Ht.
 Qed.
-Lemma not_inline_G (s : pstate) k : ps_toks pass s = T -> pidx pass s = k -> is_inline_comment (cur_tt pass s) = false.
+Lemma not_inline_G (s : pstate) Tc k : ps_toks pass s = Tc -> Forall plain Tc -> pidx pass s = k -> is_inline_comment (cur_tt pass s) = false.
 Proof.
-  intros Tk P. destruct (nth_error T k) as [t|] eqn:E.
-  - rewrite (cur_tt_G s k t Tk P E). pose proof (plain_nth _ _ E) as Pl. destruct t; try reflexivity; contradiction.
-  - rewrite cur_tt_past_end; [reflexivity|]. rewrite seq_length, P. apply nth_error_None, E.
+  intros Tk TP P. destruct (Nat.lt_ge_cases k n) as [Hk|Hk].
+  - destruct (nth_error Tc k) as [t|] eqn:E.
+    + rewrite (cur_tt_G s Tc k t Tk P Hk E). pose proof (proj1 (Forall_forall _ _) TP t (nth_error_In _ _ E)) as Pl. destruct t; try reflexivity; contradiction.
+    + unfold cur_tt, idx0. rewrite (cur_index_G s k P Hk). unfold tt_at. rewrite Tk, E. reflexivity.
+  - rewrite cur_tt_past_end; [reflexivity|]. rewrite seq_length, P. exact Hk.
 Qed.
-Lemma next_token_G (s : pstate) k :
-  has_err pass s = false -> ps_toks pass s = T -> pidx pass s = k -> k < n ->
+Lemma next_token_G (s : pstate) Tc k :
+  has_err pass s = false -> ps_toks pass s = Tc -> Forall plain Tc -> pidx pass s = k -> k < n -> length Tc = n ->
   kst pass (next_token pass s) = k_step pass (kst pass s) KT /\ metas pass (next_token pass s) = metas pass s
   /\ restv (next_token pass s) = restv s.
 Proof.
-  intros E Tk P Hk.
-  destruct (nth_error T k) as [t|] eqn:Et; [|apply nth_error_None in Et; lia].
-  pose proof (plain_nth _ _ Et) as Pl.
+  intros E Tk TP P Hk Hlen.
+  destruct (nth_error Tc k) as [t|] eqn:Et; [|apply nth_error_None in Et; lia].
+  pose proof (proj1 (Forall_forall _ _) TP t (nth_error_In _ _ Et)) as Pl.
   assert (B : next_token_body pass s = p_emit pass KT lm0 s).
-  { unfold next_token_body. rewrite (cur_index_G s k P Hk). pose proof (cur_tt_G s k t Tk P Et) as Ct.
+  { unfold next_token_body. rewrite (cur_index_G s k P Hk). pose proof (cur_tt_G s Tc k t Tk P Hk Et) as Ct.
     destruct t as [o| |k0|k0| | | | | | |]; try contradiction; try (destruct o; try contradiction); try (destruct k0; try contradiction);
       rewrite Ct; unfold track_levels; rewrite Ct; reflexivity. }
   set (s1 := p_emit pass KT lm0 s).
   assert (K1 : kst pass s1 = k_step pass (kst pass s) KT) by (apply kst_p_emit, E).
   assert (R1 : restv s1 = restv s) by apply restv_p_emit.
   assert (N1 : is_inline_comment (cur_tt pass s1) = false).
-  { apply (not_inline_G s1 (S k)); [unfold restv in R1; congruence|]. unfold pidx. rewrite K1, k_pi_KT. fold (pidx pass s). rewrite P. reflexivity. }
+  { apply (not_inline_G s1 Tc (S k)); [unfold restv in R1; congruence|exact TP|]. unfold pidx. rewrite K1, k_pi_KT. fold (pidx pass s). rewrite P. reflexivity. }
   unfold next_token. replace (remaining pass s + 2) with (S (remaining pass s + 1)) by lia.
   cbn [next_token_go]. rewrite E, B. fold s1. rewrite N1. split; [exact K1|]. split; [|exact R1].
   subst s1. rewrite (metas_p_emit _ _ _ E). reflexivity.
 Qed.
+Lemma toks_plain_G (s : pstate) r : ps_toks pass s = mix r -> Forall plain (ps_toks pass s).
+Proof. intros ->. apply mix_plain. Qed.
+Lemma mix_length r : length (mix r) = n.
+Proof. unfold mix. rewrite app_length, map_length, <- app_length, firstn_skipn. reflexivity. Qed.
+Lemma mix_all : mix n = map fin T.
+Proof. unfold mix. rewrite firstn_all, skipn_all, app_nil_r. reflexivity. Qed.
+Lemma mix_0 : mix 0 = T.
+Proof. reflexivity. Qed.
+Lemma tokfin_semi k : nth_error T k = Some tSemi -> tokfin k.
+Proof. intros H. exists tSemi. split; [exact H|reflexivity]. Qed.
+Ltac tokfin_tac :=
+  match goal with |- tokfin ?k =>
+    match goal with H : nth_error T k = Some ?t |- _ => exists t; split; [exact H|try reflexivity] end end.
 
 (* take_separators_on_last_line in front of one `;`: the `;` is appended to the last finished line *)
 Lemma take_separators_ST lvl_ s k L M mc last cx lv a t' :
@@ -346,44 +391,47 @@ Proof.
   set (s1 := p_emit pass KR lm0 s).
   assert (K1 : kst pass s1 = mkK (L ++ [[]]) (last :: length L :: stk) k last) by (subst s1; rewrite (kst_p_emit pass KR lm0 s E), K; reflexivity).
   assert (M1 : metas pass s1 = M ++ [mc]) by (subst s1; rewrite (metas_p_emit _ _ _ E); exact Mt).
-  assert (R1 : restv s1 = (T, cx, [], false, lv, a, None)) by (subst s1; rewrite restv_p_emit; exact R).
+  assert (R1 : restv s1 = (mix k, cx, [], false, lv, a, None)) by (subst s1; rewrite restv_p_emit; exact R).
   assert (A1 : at_start pass s1 = false).
   { unfold at_start, cur_toks, cur_ref. rewrite K1. cbn [k_top k_cur hd k_lines]. rewrite app_nth1 by exact Hl.
     destruct (nth last L []); [contradiction|reflexivity]. }
   rewrite A1.
   set (s2 := push_ctx pass (mkCtx CT_Utility true P_never lvl_) s1).
   assert (E1 : has_err pass s1 = false) by (unfold has_err; unfold restv in R1; injection R1 as _ _ _ _ _ _ X; rewrite X; reflexivity).
-  assert (F2 : kst pass s2 = kst pass s1 /\ metas pass s2 = metas pass s1 /\ restv s2 = (T, (mkCtx CT_Utility true P_never lvl_, false) :: cx, [], false, lv, a, None)).
+  assert (F2 : kst pass s2 = kst pass s1 /\ metas pass s2 = metas pass s1 /\ restv s2 = (mix k, (mkCtx CT_Utility true P_never lvl_, false) :: cx, [], false, lv, a, None)).
   { subst s2. unfold push_ctx, guard. rewrite E1. repeat split. unfold restv in *. cbn.
     injection R1 as X1 X2 X3 X4 X5 X6 X7. rewrite X1, X2, X3, X4, X5, X6, X7. reflexivity. }
   destruct F2 as (K2 & M2 & R2).
-  assert (T2 : ps_toks pass s2 = T) by (unfold restv in R2; congruence).
+  assert (T2 : ps_toks pass s2 = mix k) by (unfold restv in R2; congruence).
+  assert (Hk' : nth_error (mix k) k = Some tSemi) by (rewrite mix_nth_ge by lia; exact Hk).
+  assert (Hkn1 : S k < n) by (apply nth_error_Some; congruence).
+  assert (Hk1' : nth_error (mix k) (S k) = Some t') by (rewrite mix_nth_ge by lia; exact Hk1).
   assert (P2 : pidx pass s2 = k) by (unfold pidx; rewrite K2, K1; reflexivity).
   assert (E2 : has_err pass s2 = false) by (unfold has_err; unfold restv in R2; injection R2 as _ _ _ _ _ _ X; rewrite X; reflexivity).
   (* take_until: exactly one next_token *)
-  destruct (next_token_G s2 k E2 T2 P2 Hkn) as (K3 & M3 & R3). set (s3 := next_token pass s2) in *.
-  assert (T3 : ps_toks pass s3 = T) by (unfold restv in R3, R2; congruence).
+  destruct (next_token_G s2 (mix k) k E2 T2 (mix_plain k) P2 Hkn (mix_length k)) as (K3 & M3 & R3). set (s3 := next_token pass s2) in *.
+  assert (T3 : ps_toks pass s3 = mix k) by (unfold restv in R3, R2; congruence).
   assert (P3 : pidx pass s3 = S k) by (unfold pidx; rewrite K3, k_pi_KT; fold (pidx pass s2); rewrite P2; reflexivity).
   assert (TU : take_until pass (no_more_separators pass) s2 = s3).
   { unfold take_until, simple_op_until, op_until.
     assert (Hrem : remaining pass s2 + 2 = S (S (remaining pass s2))) by lia. rewrite Hrem.
-    cbn [op_until_go]. rewrite E2, (cur_tt_G s2 k tSemi T2 P2 Hk). cbn [tSemi].
-    unfold no_more_separators at 1. rewrite (cur_tt_G s2 k tSemi T2 P2 Hk). cbn [tSemi o_semicolon negb].
+    cbn [op_until_go]. rewrite E2, (cur_tt_G s2 (mix k) k tSemi T2 P2 Hkn Hk'). cbn [tSemi].
+    unfold no_more_separators at 1. rewrite (cur_tt_G s2 (mix k) k tSemi T2 P2 Hkn Hk'). cbn [tSemi o_semicolon negb].
     assert (IE : is_ending pass s2 = false).
     { unfold is_ending, ending_ctx. assert (C2 : ps_ctx pass s2 = (mkCtx CT_Utility true P_never lvl_, false) :: cx) by (unfold restv in R2; congruence).
       rewrite C2. reflexivity. }
     rewrite IE. fold s3.
     assert (E3 : has_err pass s3 = false).
     { unfold has_err. unfold restv in R3, R2. assert (X : ps_err pass s3 = None) by congruence. rewrite X. reflexivity. }
-    rewrite E3. rewrite (cur_tt_G s3 (S k) t' T3 P3 Hk1).
+    rewrite E3. rewrite (cur_tt_G s3 (mix k) (S k) t' T3 P3 Hkn1 Hk1').
     destruct t' as [o| |k0|k0| | | | | | |]; try reflexivity;
-      unfold no_more_separators; rewrite (cur_tt_G s3 (S k) _ T3 P3 Hk1); try reflexivity.
+      unfold no_more_separators; rewrite (cur_tt_G s3 (mix k) (S k) _ T3 P3 Hkn1 Hk1'); try reflexivity.
     destruct o; try reflexivity. exfalso. apply Hne. reflexivity. }
   rewrite TU.
   assert (E3 : has_err pass s3 = false).
   { unfold has_err. unfold restv in R3, R2. assert (X : ps_err pass s3 = None) by congruence. rewrite X. reflexivity. }
   set (s4 := pop_ctx pass s3).
-  assert (F4 : kst pass s4 = kst pass s3 /\ metas pass s4 = metas pass s3 /\ restv s4 = (T, cx, [], false, lv, a, None)).
+  assert (F4 : kst pass s4 = kst pass s3 /\ metas pass s4 = metas pass s3 /\ restv s4 = (mix k, cx, [], false, lv, a, None)).
   { subst s4. unfold pop_ctx, guard. rewrite E3. repeat split. unfold restv in *. cbn.
     rewrite R2 in R3. injection R3 as X1 X2 X3 X4 X5 X6 X7. rewrite X1, X2, X3, X4, X5, X6, X7. reflexivity. }
   destruct F4 as (K4 & M4 & R4).
@@ -394,7 +442,7 @@ Proof.
     rewrite upd_nth_len. reflexivity.
   - rewrite (metas_p_emit _ _ _ E4). cbn [appends]. rewrite M4, M3, M2. exact M1.
   - rewrite upd_nth_len. exact Ml.
-  - rewrite restv_p_emit. exact R4.
+  - rewrite restv_p_emit, (mix_step k (tokfin_semi k Hk)). exact R4.
 Qed.
 (* ... and it does nothing in front of another token *)
 Lemma take_separators_noop lvl_ s k L c M mc last cx lv a t :
@@ -507,10 +555,10 @@ Proof.
   assert (Sk : exists r, skipn (S k) pass = S k :: r).
   { rewrite skipn_seq. cbn [Nat.add]. destruct (length T - S k) eqn:Z; [lia|]. cbn [seq]. eauto. }
   destruct Sk as [r Sk].
-  rewrite Sk. cbn [find]. unfold filt_at, tt_at. rewrite (ST_toks _ _ _ _ _ _ _ _ _ _ H), Ht.
+  rewrite Sk. cbn [find]. unfold filt_at, tt_at. rewrite (ST_toks _ _ _ _ _ _ _ _ _ _ H), (mix_nth_ge k (S k)) by lia. rewrite Ht.
   pose proof (plain_nth _ _ Ht) as P.
   assert (F : tok_filter t = true) by (destruct t; try reflexivity; try contradiction; exfalso; apply Hne; reflexivity).
-  rewrite F. cbn [bind]. exact Ht.
+  rewrite F. cbn [bind]. rewrite (mix_nth_ge k (S k)) by lia. exact Ht.
 Qed.
 
 (* ---------------- parse_statement / parse_structures on `Identifier ;` *)
@@ -647,7 +695,7 @@ Lemma statement_assign f s k L c M mc last x fl r lv a :
   ending_ctx pass s = None -> stmt_ctype x ->
   RUN (S f) C_statement s = RUN f C_statement (set_line_type pass LLT_Assignment (next_token pass s)).
 Proof.
-  intros H Hk Hty E Hx. assert (Hkn : k < n) by (apply nth_error_Some; congruence).
+  intros H Hk Hty E Hx. assert (Hkn : tokfin (k)) by tokfin_tac.
   rewrite (run_S _ C_statement _ (ST_err _ _ _ _ _ _ _ _ _ _ H)).
   unfold arm_statement. rewrite (ST_cur_tt _ _ _ _ _ _ _ _ _ _ _ H Hk). cbn [tAssign].
   rewrite (prelude_none _ _ _ _ _ _ _ _ _ _ _ _ H E Hx). cbn [negb starm_of tAssign].
@@ -688,7 +736,7 @@ Qed.
 
 (* entering a nested block after its opening keyword, in any context *)
 Lemma open_block_G f s k Ls M mc last Y lv a bk' :
-  ST s k Ls [] M mc last Y lv a -> k < n ->
+  ST s k Ls [] M mc last Y lv a -> tokfin k ->
   let s1 := push_ctx pass (cBlk bk') (finish_logical_line pass (next_token pass s)) in
   RUN (S (S f)) (C_stmt_block (cBlk bk') (sk_of bk')) (next_token pass s) = pop_ctx pass (RUN f (slc bk') s1)
   /\ ST s1 (S k) (Ls ++ [[k]]) [] (M ++ [mkLM (first_parent Y) (clamp_u16 (plain_sum Y)) (lm_type mc)])
@@ -728,7 +776,7 @@ Lemma line_section_run th f s k L c M mc last r lv a :
   ST (RUN f (C_line_section (cUtp th)) s) (S k) L (c ++ [k]) M mc last r lv a.
 Proof.
   intros H Hk Hk1 Hf. destruct f as [|[|[|f]]]; try lia.
-  assert (Hkn : k < n) by (apply nth_error_Some; congruence).
+  assert (Hkn : tokfin (k)) by tokfin_tac.
   rewrite (run_S _ (C_line_section _) _ (ST_err _ _ _ _ _ _ _ _ _ _ H)). unfold arm_line_section.
   pose proof (push_ctx_ST (cUtp th) _ _ _ _ _ _ _ _ _ _ H) as H1.
   assert (E0 : ending_ctx pass (push_ctx pass (cUtp th) s) = None) by (rewrite (ending_Ut _ _ _ _ _ _ _ _ _ _ _ _ H1 Hk); reflexivity).
@@ -885,7 +933,7 @@ Lemma core_simple X E pp f s k L M mc last lv a tf j :
      (optpopc pp (mark_ended (S j) X)) lv a.
 Proof.
   intros [P0 (x & r & -> & Hx)] Hl H Hk Hk1 Ej HnE Oc Hf. destruct f as [|[|[|[|f]]]]; try lia.
-  assert (Hkn : k < n) by (apply nth_error_Some; congruence).
+  assert (Hkn : tokfin (k)) by tokfin_tac.
   assert (E0 : ending_ctx pass s = None) by (rewrite (pos_ending _ _ _ _ _ _ _ _ _ _ _ _ P0 H Hk); apply (pos_start _ _ P0); reflexivity).
   rewrite (structures_ident _ _ _ _ _ _ _ _ _ _ _ H Hk E0).
   rewrite (statement_ident _ _ _ _ _ _ _ _ _ _ _ _ _ _ H Hk Hk1 HnE Oc E0 Hx).
@@ -908,9 +956,9 @@ Lemma core_assign X E pp f s k L M mc last lv a tf j :
      (optpopc pp (mark_ended (S j) X)) lv a.
 Proof.
   intros [P0 (x & r & -> & Hx)] Hl H Hty Hk Hk1 Hk2 Hk3 Ej HnE Oc Hf. destruct f as [|[|[|[|[|[|f]]]]]]; try lia.
-  assert (Hkn : k < n) by (apply nth_error_Some; congruence).
-  assert (Hkn1 : S k < n) by (apply nth_error_Some; congruence).
-  assert (Hkn2 : S (S k) < n) by (apply nth_error_Some; congruence).
+  assert (Hkn : tokfin (k)) by tokfin_tac.
+  assert (Hkn1 : tokfin (S k)) by tokfin_tac.
+  assert (Hkn2 : tokfin (S (S k))) by tokfin_tac.
   assert (E0 : ending_ctx pass s = None) by (rewrite (pos_ending _ _ _ _ _ _ _ _ _ _ _ _ P0 H Hk); apply (pos_start _ _ P0); reflexivity).
   rewrite (structures_ident _ _ _ _ _ _ _ _ _ _ _ H Hk E0).
   rewrite (statement_ident _ _ _ _ _ _ _ _ _ _ _ _ _ _ H Hk Hk1 ltac:(discriminate) eq_refl E0 Hx).
@@ -937,13 +985,13 @@ Qed.
 (* a closing keyword on a line of its own, in front of the token that ends the statement *)
 Lemma close_kw X E f s e Lx Mx mcb lastb lv a tf j tk :
   Pos0 X E -> ST s e Lx [] Mx mcb lastb X lv a -> lm_type mcb = LLT_Unknown ->
-  nth_error T e = Some tk -> nth_error T (S e) = Some tf -> E tf = Some (S j) -> tf <> RTT_Eof -> 1 <= f ->
+  nth_error T e = Some tk -> fin tk = tk -> nth_error T (S e) = Some tf -> E tf = Some (S j) -> tf <> RTT_Eof -> 1 <= f ->
   ST (RUN f C_structures (finish_logical_line pass (take_until pass (no_more_separators pass) (next_token pass s))))
      (S e) (Lx ++ [[e]]) [] (Mx ++ [mkLM (first_parent X) (clamp_u16 (plain_sum X)) LLT_Unknown])
      (mkLM None (clamp_u16 (plain_sum X)) LLT_Unknown) (length Lx) (mark_ended (S j) X) lv a.
 Proof.
-  intros P0 H Ty He Hs Ej HnE Hf. destruct f as [|f]; [lia|].
-  assert (Hen : e < n) by (apply nth_error_Some; congruence).
+  intros P0 H Ty He Hfk Hs Ej HnE Hf. destruct f as [|f]; [lia|].
+  assert (Hen : tokfin e) by (exists tk; split; [exact He|exact Hfk]).
   pose proof (next_token_ST _ _ _ _ _ _ _ _ _ _ H Hen) as H7. cbn [app] in H7.
   assert (Ct : cur_tt pass (next_token pass s) = Some tf).
   { rewrite (ST_cur_tt _ _ _ _ _ _ _ _ _ _ _ H7 Hs). destruct tf; try reflexivity. contradiction HnE; reflexivity. }
@@ -970,7 +1018,7 @@ Lemma core_block X E pp b f s k L M mc last lv a tf j :
      (mkLM None (lvl (plain_sum X)) LLT_Unknown) (length L + S (length lb)) (optpopc pp (mark_ended (S j) X)) lv a.
 Proof.
   intros [P0 _] Hl IHb Hp H Hty Hk Hb Hfo Ej HnE Od Hf e lb.
-  assert (Hkn : k < n) by (apply nth_error_Some; congruence).
+  assert (Hkn : tokfin (k)) by tokfin_tac.
   destruct f as [|[|[|[|f]]]]; try lia.
   assert (E0 : ending_ctx pass s = None) by (rewrite (pos_ending _ _ _ _ _ _ _ _ _ _ _ _ P0 H Hk); apply (pos_start _ _ P0); reflexivity).
   rewrite (run_S _ C_structures _ (ST_err _ _ _ _ _ _ _ _ _ _ H)).
@@ -985,13 +1033,13 @@ Proof.
   match type of H6 with ST ?x _ _ _ _ _ _ _ _ _ => set (sB := x) in * end.
   assert (He : nth_error T e = Some tEnd).
   { specialize (Hb (length (render b)) tEnd). rewrite nth_error_app2, Nat.sub_diag in Hb by lia. exact (Hb eq_refl). }
-  assert (Hen : e < n) by (apply nth_error_Some; congruence).
+  assert (Hen : tokfin (e)) by tokfin_tac.
   cbv zeta. rewrite (ST_cur_tt _ _ _ _ _ _ _ _ _ _ _ H6 He). cbn [tEnd o_kw_end].
   pose proof (next_token_ST _ _ _ _ _ _ _ _ _ _ H6 Hen) as H7.
   assert (Ct7 : cur_tt pass (next_token pass sB) = Some tf).
   { rewrite (ST_cur_tt _ _ _ _ _ _ _ _ _ _ _ H7 Hfo). destruct tf; try reflexivity. contradiction HnE; reflexivity. }
   rewrite Ct7, Od. unfold s_loop.
-  pose proof (close_kw X E (S (S (S f))) _ _ _ _ _ _ _ _ _ _ tEnd P0 H6 Tyb He Hfo Ej HnE ltac:(lia)) as H9. rewrite Hp in H9.
+  pose proof (close_kw X E (S (S (S f))) _ _ _ _ _ _ _ _ _ _ tEnd P0 H6 Tyb He eq_refl Hfo Ej HnE ltac:(lia)) as H9. rewrite Hp in H9.
   pose proof (fin_closed pp _ _ _ _ _ _ _ _ _ _ Hl H9) as H10. cbn [lm_parent lm_level] in H10.
   assert (EL : length ((L ++ [[k]]) ++ map ll_toks lb) = length L + S (length lb)) by (rewrite !app_length, map_length; cbn [length]; lia).
   rewrite EL in H10.
@@ -1015,7 +1063,7 @@ Lemma core_repeat X E pp b f s k L M mc last lv a tf j :
      (mkLM None (lvl (plain_sum X)) LLT_Unknown) (length L + S (length lb)) (optpopc pp (mark_ended (S j) X)) lv a.
 Proof.
   intros [P0 (x0 & r0 & EX & Hx0)] Hl IHb Hp H Hty Hk Hb Hi Hfo Ej HnE Oc Hf e lb.
-  assert (Hkn : k < n) by (apply nth_error_Some; congruence).
+  assert (Hkn : tokfin (k)) by tokfin_tac.
   destruct f as [|[|[|[|f]]]]; try lia.
   assert (E0 : ending_ctx pass s = None) by (rewrite (pos_ending _ _ _ _ _ _ _ _ _ _ _ _ P0 H Hk); apply (pos_start _ _ P0); reflexivity).
   rewrite (run_S _ C_structures _ (ST_err _ _ _ _ _ _ _ _ _ _ H)).
@@ -1030,8 +1078,8 @@ Proof.
   match type of H6 with ST ?x _ _ _ _ _ _ _ _ _ => set (sB := x) in * end.
   assert (He : nth_error T e = Some tUntil).
   { specialize (Hb (length (render b)) tUntil). rewrite nth_error_app2, Nat.sub_diag in Hb by lia. exact (Hb eq_refl). }
-  assert (Hen : e < n) by (apply nth_error_Some; congruence).
-  assert (Hen1 : S e < n) by (apply nth_error_Some; unfold e; rewrite Hi; discriminate).
+  assert (Hen : tokfin (e)) by tokfin_tac.
+  assert (Hen1 : tokfin (S e)) by (exists tI; split; [exact Hi|reflexivity]).
   cbv zeta.
   (* `until` Identifier, inside a BlockClause context *)
   pose proof (next_token_ST _ _ _ _ _ _ _ _ _ _ H6 Hen) as H7. cbn [app] in H7.
@@ -1073,18 +1121,23 @@ Proof.
 Qed.
 
 (* try b finally|except c end: the two variants differ in the block kinds only *)
-Lemma core_try (ex : bool) X E pp b c f s k L M mc last lv a tf j :
+Lemma core_try (ex : bool) X E pp b (rc : list RawTokenType) (needc : nat) (lcf : nat -> nat -> list lline) f s k L M mc last lv a tf j :
   let k1 := if ex then KTryE else KTry in let k2 := if ex then KExcept else KFinally in
-  Pos X E -> (pp = true -> lvl0 X) -> IHfor k1 b X -> IHfor k2 c X -> first_parent X = par ->
+  Pos X E -> (pp = true -> lvl0 X) -> IHfor k1 b X ->
+  (forall f s k Ls M mc last lv a li, needc <= f -> li = length Ls -> ST s k Ls [] M mc last ((cBlk k2, false) :: X) lv a ->
+     toks_at k (rc ++ [tTerm k2]) ->
+     exists mc' last' fl, lm_type mc' = LLT_Unknown /\
+       ST (RUN f (slc k2) s) (k + length rc) (Ls ++ map ll_toks (lcf k li)) [] (M ++ map meta_of (lcf k li)) mc' last' ((cBlk k2, fl) :: X) lv a) ->
+  first_parent X = par ->
   ST s k L [] M mc last X lv a -> lm_type mc = LLT_Unknown ->
   nth_error T k = Some tTry -> toks_at (S k) (render b ++ [tTerm k1]) ->
-  toks_at (S (S k + length (render b))) (render c ++ [tEnd]) ->
-  nth_error T (S (S (S k + length (render b)) + length (render c))) = Some tf -> E tf = Some (S j) -> tf <> RTT_Eof ->
-  8 + need b + need c <= f ->
+  toks_at (S (S k + length (render b))) (rc ++ [tEnd]) ->
+  nth_error T (S (S (S k + length (render b)) + length rc)) = Some tf -> E tf = Some (S j) -> tf <> RTT_Eof ->
+  8 + need b + needc <= f ->
   let m := S k + length (render b) in
-  let e := S m + length (render c) in
+  let e := S m + length rc in
   let lb := pexpected par (1 + plain_sum X) (S k) (S (length L)) b in
-  let lc := pexpected par (1 + plain_sum X) (S m) (S (length L) + length lb + 1) c in
+  let lc := lcf (S m) (S (length L) + length lb + 1) in
   ST (finish_logical_line pass (optpop pp (RUN f C_structures s))) (S e)
      (L ++ [k] :: map ll_toks lb ++ [m] :: map ll_toks lc ++ [[e]]) []
      (M ++ mkLM par (lvl (plain_sum X)) LLT_Unknown :: map meta_of lb ++ mkLM par (lvl (plain_sum X)) LLT_Unknown :: map meta_of lc
@@ -1092,7 +1145,7 @@ Lemma core_try (ex : bool) X E pp b c f s k L M mc last lv a tf j :
      (mkLM None (lvl (plain_sum X)) LLT_Unknown) (length L + S (length lb) + S (length lc)) (optpopc pp (mark_ended (S j) X)) lv a.
 Proof.
   intros k1 k2 [P0 _] Hl IHb IHc Hp H Hty Hk Hb Hcn Hfo Ej HnE Hf m e lb lc.
-  assert (Hkn : k < n) by (apply nth_error_Some; congruence).
+  assert (Hkn : tokfin (k)) by tokfin_tac.
   destruct f as [|[|[|[|f]]]]; try lia.
   assert (E0 : ending_ctx pass s = None) by (rewrite (pos_ending _ _ _ _ _ _ _ _ _ _ _ _ P0 H Hk); apply (pos_start _ _ P0); reflexivity).
   rewrite (run_S _ C_structures _ (ST_err _ _ _ _ _ _ _ _ _ _ H)).
@@ -1110,7 +1163,7 @@ Proof.
     match type of H6 with ST ?x _ _ _ _ _ _ _ _ _ => set (sB := x) in * end.
     assert (Hm : nth_error T m = Some tExcept).
     { specialize (Hb (length (render b)) tExcept). rewrite nth_error_app2, Nat.sub_diag in Hb by lia. exact (Hb eq_refl). }
-    assert (Hmn : m < n) by (apply nth_error_Some; congruence).
+    assert (Hmn : tokfin (m)) by tokfin_tac.
     cbv zeta. rewrite (ST_cur_tt _ _ _ _ _ _ _ _ _ _ _ H6 Hm). cbn [tExcept].
     change (ctx (CT_StatementBlock BK_Except) true P_else_end (ParserGrammar.L 1)) with (cBlk KExcept).
     destruct (open_block_G (S f) _ _ _ _ _ _ _ _ _ KExcept H6 Hmn) as [Eq2 H4']. cbn [sk_of] in Eq2. rewrite Eq2. clear Eq2.
@@ -1120,9 +1173,9 @@ Proof.
     pose proof (pop_ctx_ST _ _ _ _ _ _ _ _ _ _ _ H5') as H6'. fold e in H6'.
     match type of H6' with ST ?x _ _ _ _ _ _ _ _ _ => set (sC := x) in * end.
     assert (He : nth_error T e = Some tEnd).
-    { specialize (Hcn (length (render c)) tEnd). rewrite nth_error_app2, Nat.sub_diag in Hcn by lia. exact (Hcn eq_refl). }
+    { specialize (Hcn (length rc) tEnd). rewrite nth_error_app2, Nat.sub_diag in Hcn by lia. exact (Hcn eq_refl). }
     rewrite (ST_cur_tt _ _ _ _ _ _ _ _ _ _ _ H6' He). cbn [tEnd o_kw_else]. unfold s_loop.
-    pose proof (close_kw X E (S (S (S f))) _ _ _ _ _ _ _ _ _ _ tEnd P0 H6' Tyc He Hfo Ej HnE ltac:(lia)) as H9. rewrite Hp in H9.
+    pose proof (close_kw X E (S (S (S f))) _ _ _ _ _ _ _ _ _ _ tEnd P0 H6' Tyc He eq_refl Hfo Ej HnE ltac:(lia)) as H9. rewrite Hp in H9.
     pose proof (fin_closed pp _ _ _ _ _ _ _ _ _ _ Hl H9) as H10. cbn [lm_parent lm_level] in H10.
     assert (EL : length ((((L ++ [[k]]) ++ map ll_toks lb) ++ [[m]]) ++ map ll_toks lc) = length L + S (length lb) + S (length lc))
       by (rewrite !app_length, !map_length; cbn [length]; lia).
@@ -1138,7 +1191,7 @@ Proof.
     match type of H6 with ST ?x _ _ _ _ _ _ _ _ _ => set (sB := x) in * end.
     assert (Hm : nth_error T m = Some tFinally).
     { specialize (Hb (length (render b)) tFinally). rewrite nth_error_app2, Nat.sub_diag in Hb by lia. exact (Hb eq_refl). }
-    assert (Hmn : m < n) by (apply nth_error_Some; congruence).
+    assert (Hmn : tokfin (m)) by tokfin_tac.
     cbv zeta. rewrite (ST_cur_tt _ _ _ _ _ _ _ _ _ _ _ H6 Hm). cbn [tFinally].
     change (ctx (CT_StatementBlock BK_Finally) true P_else_end (ParserGrammar.L 1)) with (cBlk KFinally).
     destruct (open_block_G (S f) _ _ _ _ _ _ _ _ _ KFinally H6 Hmn) as [Eq2 H4']. cbn [sk_of] in Eq2. rewrite Eq2. clear Eq2.
@@ -1148,9 +1201,9 @@ Proof.
     pose proof (pop_ctx_ST _ _ _ _ _ _ _ _ _ _ _ H5') as H6'. fold e in H6'.
     match type of H6' with ST ?x _ _ _ _ _ _ _ _ _ => set (sC := x) in * end.
     assert (He : nth_error T e = Some tEnd).
-    { specialize (Hcn (length (render c)) tEnd). rewrite nth_error_app2, Nat.sub_diag in Hcn by lia. exact (Hcn eq_refl). }
+    { specialize (Hcn (length rc) tEnd). rewrite nth_error_app2, Nat.sub_diag in Hcn by lia. exact (Hcn eq_refl). }
     rewrite (ST_cur_tt _ _ _ _ _ _ _ _ _ _ _ H6' He). cbn [tEnd o_kw_else]. unfold s_loop.
-    pose proof (close_kw X E (S (S (S f))) _ _ _ _ _ _ _ _ _ _ tEnd P0 H6' Tyc He Hfo Ej HnE ltac:(lia)) as H9. rewrite Hp in H9.
+    pose proof (close_kw X E (S (S (S f))) _ _ _ _ _ _ _ _ _ _ tEnd P0 H6' Tyc He eq_refl Hfo Ej HnE ltac:(lia)) as H9. rewrite Hp in H9.
     pose proof (fin_closed pp _ _ _ _ _ _ _ _ _ _ Hl H9) as H10. cbn [lm_parent lm_level] in H10.
     assert (EL : length ((((L ++ [[k]]) ++ map ll_toks lb) ++ [[m]]) ++ map ll_toks lc) = length L + S (length lb) + S (length lc))
       by (rewrite !app_length, !map_length; cbn [length]; lia).
@@ -1159,6 +1212,9 @@ Proof.
 Qed.
 
 End Frame.
+Ltac tokfin_tac :=
+  match goal with |- tokfin ?k =>
+    match goal with H : nth_error T k = Some ?t |- _ => exists t; split; [exact H|try reflexivity] end end.
 
 
 (* ================================================================== *)
@@ -1167,7 +1223,7 @@ End Frame.
 Notation RUN := (run pass []).
 Definition GS (s : pstate) (k : nat) (Ls : list (list nat)) (cs : list nat) (M : list lmeta) (last : nat)
            (cx : list (pctx * bool)) (lv : levels) (at_ : list nat) : Prop :=
-  kst pass s = mkK Ls cs k last /\ metas pass s = M /\ length M = length Ls /\ restv s = (T, cx, [], false, lv, at_, None).
+  kst pass s = mkK Ls cs k last /\ metas pass s = M /\ length M = length Ls /\ restv s = (mix k, cx, [], false, lv, at_, None).
 Lemma ST_GS stk s k L c M mc last cx lv a :
   ST stk s k L c M mc last cx lv a -> GS s k (L ++ [c]) (length L :: stk) (M ++ [mc]) last cx lv a.
 Proof. intros (K & Mt & Ml & R). split; [exact K|split; [exact Mt|split; [|exact R]]]. rewrite !app_length, Ml. reflexivity. Qed.
@@ -1182,7 +1238,7 @@ Lemma GS_lists s k Ls Ls' cs M M' last cx lv a :
 Proof. intros H -> ->. exact H. Qed.
 Lemma GS_err s k Ls cs M last cx lv a : GS s k Ls cs M last cx lv a -> has_err pass s = false.
 Proof. intros (_ & _ & _ & R). unfold restv in R. unfold has_err. injection R as _ _ _ _ _ _ E. rewrite E. reflexivity. Qed.
-Lemma GS_toks s k Ls cs M last cx lv a : GS s k Ls cs M last cx lv a -> ps_toks pass s = T.
+Lemma GS_toks s k Ls cs M last cx lv a : GS s k Ls cs M last cx lv a -> ps_toks pass s = mix k.
 Proof. intros (_ & _ & _ & R). unfold restv in R. congruence. Qed.
 Lemma GS_ctx s k Ls cs M last cx lv a : GS s k Ls cs M last cx lv a -> ps_ctx pass s = cx.
 Proof. intros (_ & _ & _ & R). unfold restv in R. congruence. Qed.
@@ -1192,7 +1248,10 @@ Lemma GS_cur_ref s k Ls h cs M last cx lv a : GS s k Ls (h :: cs) M last cx lv a
 Proof. intros (K & _). unfold cur_ref. rewrite K. reflexivity. Qed.
 Lemma GS_cur_tt s k Ls cs M last cx lv a t : GS s k Ls cs M last cx lv a -> nth_error T k = Some t ->
   cur_tt pass s = match t with RTT_Eof => None | _ => Some t end.
-Proof. intros H Ht. exact (cur_tt_G s k t (GS_toks _ _ _ _ _ _ _ _ _ H) (GS_pidx _ _ _ _ _ _ _ _ _ H) Ht). Qed.
+Proof.
+  intros H Ht. assert (Hk : k < n) by (apply nth_error_Some; congruence).
+  apply (cur_tt_G s (mix k) k t (GS_toks _ _ _ _ _ _ _ _ _ H) (GS_pidx _ _ _ _ _ _ _ _ _ H) Hk). rewrite mix_nth_ge by lia. exact Ht.
+Qed.
 
 Lemma emit_KC_GS m s k Ls cs M last cx lv a : GS s k Ls cs M last cx lv a ->
   GS (p_emit pass KC m s) k (Ls ++ [[]]) (length Ls :: cs) (M ++ [m]) (length Ls) cx lv a.
@@ -1212,16 +1271,16 @@ Proof.
   - exact Ml.
   - rewrite restv_p_emit. exact R.
 Qed.
-Lemma next_token_GS s k Ls h cs M last cx lv a : GS s k Ls (h :: cs) M last cx lv a -> k < n ->
+Lemma next_token_GS s k Ls h cs M last cx lv a : GS s k Ls (h :: cs) M last cx lv a -> tokfin k ->
   GS (next_token pass s) (S k) (upd_nth h (fun l => l ++ [k]) Ls) (h :: cs) M last cx lv a.
 Proof.
-  intros H Hk.
-  destruct (next_token_G s k (GS_err _ _ _ _ _ _ _ _ _ H) (GS_toks _ _ _ _ _ _ _ _ _ H) (GS_pidx _ _ _ _ _ _ _ _ _ H) Hk) as (K1 & M1 & R1).
+  intros H Hkf. pose proof (tokfin_lt k Hkf) as Hk.
+  destruct (next_token_G s (mix k) k (GS_err _ _ _ _ _ _ _ _ _ H) (GS_toks _ _ _ _ _ _ _ _ _ H) (mix_plain k) (GS_pidx _ _ _ _ _ _ _ _ _ H) Hk (mix_length k)) as (K1 & M1 & R1).
   destruct H as (K & Mt & Ml & R). split; [|split; [|split]].
   - rewrite K1, K. cbn [k_step k_pi k_lines k_cur k_last k_top hd]. rewrite (nth_error_seq0 _ _ Hk). reflexivity.
   - rewrite M1. exact Mt.
   - rewrite upd_nth_len. exact Ml.
-  - rewrite R1. exact R.
+  - rewrite R1, (mix_step k Hkf). exact R.
 Qed.
 
 (* take_separators_on_last_line in front of one `;`, any line-stack shape *)
@@ -1238,43 +1297,46 @@ Proof.
   set (s1 := p_emit pass KR lm0 s).
   assert (K1 : kst pass s1 = mkK Ls (last :: h :: cs) k last) by (subst s1; rewrite (kst_p_emit pass KR lm0 s E), K; reflexivity).
   assert (M1 : metas pass s1 = M) by (subst s1; rewrite (metas_p_emit _ _ _ E); exact Mt).
-  assert (R1 : restv s1 = (T, cx, [], false, lv, a, None)) by (subst s1; rewrite restv_p_emit; exact R).
+  assert (R1 : restv s1 = (mix k, cx, [], false, lv, a, None)) by (subst s1; rewrite restv_p_emit; exact R).
   assert (A1 : at_start pass s1 = false).
   { unfold at_start, cur_toks, cur_ref. rewrite K1. cbn [k_top k_cur hd k_lines].
     destruct (nth last Ls []); [contradiction|reflexivity]. }
   rewrite A1.
   set (s2 := push_ctx pass (mkCtx CT_Utility true P_never lvl_) s1).
   assert (E1 : has_err pass s1 = false) by (unfold has_err; unfold restv in R1; injection R1 as _ _ _ _ _ _ X; rewrite X; reflexivity).
-  assert (F2 : kst pass s2 = kst pass s1 /\ metas pass s2 = metas pass s1 /\ restv s2 = (T, (mkCtx CT_Utility true P_never lvl_, false) :: cx, [], false, lv, a, None)).
+  assert (F2 : kst pass s2 = kst pass s1 /\ metas pass s2 = metas pass s1 /\ restv s2 = (mix k, (mkCtx CT_Utility true P_never lvl_, false) :: cx, [], false, lv, a, None)).
   { subst s2. unfold push_ctx, guard. rewrite E1. repeat split. unfold restv in *. cbn.
     injection R1 as X1 X2 X3 X4 X5 X6 X7. rewrite X1, X2, X3, X4, X5, X6, X7. reflexivity. }
   destruct F2 as (K2 & M2 & R2).
-  assert (T2 : ps_toks pass s2 = T) by (unfold restv in R2; congruence).
+  assert (T2 : ps_toks pass s2 = mix k) by (unfold restv in R2; congruence).
+  assert (Hk' : nth_error (mix k) k = Some tSemi) by (rewrite mix_nth_ge by lia; exact Hk).
+  assert (Hkn1 : S k < n) by (apply nth_error_Some; congruence).
+  assert (Hk1' : nth_error (mix k) (S k) = Some t') by (rewrite mix_nth_ge by lia; exact Hk1).
   assert (P2 : pidx pass s2 = k) by (unfold pidx; rewrite K2, K1; reflexivity).
   assert (E2 : has_err pass s2 = false) by (unfold has_err; unfold restv in R2; injection R2 as _ _ _ _ _ _ X; rewrite X; reflexivity).
-  destruct (next_token_G s2 k E2 T2 P2 Hkn) as (K3 & M3 & R3). set (s3 := next_token pass s2) in *.
-  assert (T3 : ps_toks pass s3 = T) by (unfold restv in R3, R2; congruence).
+  destruct (next_token_G s2 (mix k) k E2 T2 (mix_plain k) P2 Hkn (mix_length k)) as (K3 & M3 & R3). set (s3 := next_token pass s2) in *.
+  assert (T3 : ps_toks pass s3 = mix k) by (unfold restv in R3, R2; congruence).
   assert (P3 : pidx pass s3 = S k) by (unfold pidx; rewrite K3, k_pi_KT; fold (pidx pass s2); rewrite P2; reflexivity).
   assert (TU : take_until pass (no_more_separators pass) s2 = s3).
   { unfold take_until, simple_op_until, op_until.
     assert (Hrem : remaining pass s2 + 2 = S (S (remaining pass s2))) by lia. rewrite Hrem.
-    cbn [op_until_go]. rewrite E2, (cur_tt_G s2 k tSemi T2 P2 Hk). cbn [tSemi].
-    unfold no_more_separators at 1. rewrite (cur_tt_G s2 k tSemi T2 P2 Hk). cbn [tSemi o_semicolon negb].
+    cbn [op_until_go]. rewrite E2, (cur_tt_G s2 (mix k) k tSemi T2 P2 Hkn Hk'). cbn [tSemi].
+    unfold no_more_separators at 1. rewrite (cur_tt_G s2 (mix k) k tSemi T2 P2 Hkn Hk'). cbn [tSemi o_semicolon negb].
     assert (IE : is_ending pass s2 = false).
     { unfold is_ending, ending_ctx. assert (C2 : ps_ctx pass s2 = (mkCtx CT_Utility true P_never lvl_, false) :: cx) by (unfold restv in R2; congruence).
       rewrite C2. reflexivity. }
     rewrite IE. fold s3.
     assert (E3 : has_err pass s3 = false).
     { unfold has_err. unfold restv in R3, R2. assert (X : ps_err pass s3 = None) by congruence. rewrite X. reflexivity. }
-    rewrite E3. rewrite (cur_tt_G s3 (S k) t' T3 P3 Hk1).
+    rewrite E3. rewrite (cur_tt_G s3 (mix k) (S k) t' T3 P3 Hkn1 Hk1').
     destruct t' as [o| |k0|k0| | | | | | |]; try reflexivity;
-      unfold no_more_separators; rewrite (cur_tt_G s3 (S k) _ T3 P3 Hk1); try reflexivity.
+      unfold no_more_separators; rewrite (cur_tt_G s3 (mix k) (S k) _ T3 P3 Hkn1 Hk1'); try reflexivity.
     destruct o; try reflexivity. exfalso. apply Hne. reflexivity. }
   rewrite TU.
   assert (E3 : has_err pass s3 = false).
   { unfold has_err. unfold restv in R3, R2. assert (X : ps_err pass s3 = None) by congruence. rewrite X. reflexivity. }
   set (s4 := pop_ctx pass s3).
-  assert (F4 : kst pass s4 = kst pass s3 /\ metas pass s4 = metas pass s3 /\ restv s4 = (T, cx, [], false, lv, a, None)).
+  assert (F4 : kst pass s4 = kst pass s3 /\ metas pass s4 = metas pass s3 /\ restv s4 = (mix k, cx, [], false, lv, a, None)).
   { subst s4. unfold pop_ctx, guard. rewrite E3. repeat split. unfold restv in *. cbn.
     rewrite R2 in R3. injection R3 as X1 X2 X3 X4 X5 X6 X7. rewrite X1, X2, X3, X4, X5, X6, X7. reflexivity. }
   destruct F4 as (K4 & M4 & R4).
@@ -1284,7 +1346,7 @@ Proof.
     rewrite (nth_error_seq0 _ _ Hkn). reflexivity.
   - rewrite (metas_p_emit _ _ _ E4). cbn [appends]. rewrite M4, M3, M2. exact M1.
   - rewrite upd_nth_len. exact Ml.
-  - rewrite restv_p_emit. exact R4.
+  - rewrite restv_p_emit, (mix_step k (tokfin_semi k Hk)). exact R4.
 Qed.
 
 (* finish_logical_line on a non-empty current line, any line-stack shape *)
@@ -1298,9 +1360,9 @@ Proof.
   assert (A : at_start pass s = false).
   { unfold at_start, cur_toks. rewrite Rf. destruct H as (K & _). rewrite K. cbn [k_lines]. destruct (nth h Ls []); [contradiction|reflexivity]. }
   unfold finish_logical_line, guard. rewrite E, A.
-  rewrite (portability_noop_G s (GS_toks _ _ _ _ _ _ _ _ _ H)).
+  rewrite (portability_noop_G s (toks_plain_G s k (GS_toks _ _ _ _ _ _ _ _ _ H))).
   replace (remaining pass s + 2) with (S (remaining pass s + 1)) by lia.
-  rewrite (inline_noop s _ (not_inline_G s k (GS_toks _ _ _ _ _ _ _ _ _ H) (GS_pidx _ _ _ _ _ _ _ _ _ H))).
+  rewrite (inline_noop s _ (not_inline_G s (mix k) k (GS_toks _ _ _ _ _ _ _ _ _ H) (mix_plain k) (GS_pidx _ _ _ _ _ _ _ _ _ H))).
   assert (GL : get_context_level pass s = (first_parent cx, clamp_u16 (plain_sum cx))).
   { unfold get_context_level. rewrite (GS_ctx _ _ _ _ _ _ _ _ _ H), ctx_level_go_spec. reflexivity. }
   rewrite GL.
@@ -1390,17 +1452,18 @@ Proof.
   assert (Sk : exists r, skipn (S k) pass = S k :: r).
   { rewrite skipn_seq. cbn [Nat.add]. destruct (length T - S k) eqn:Z; [lia|]. cbn [seq]. eauto. }
   destruct Sk as [r Sk].
-  rewrite Sk. cbn [find]. unfold filt_at, tt_at. rewrite (GS_toks _ _ _ _ _ _ _ _ _ H), Ht.
+  rewrite Sk. cbn [find]. unfold filt_at, tt_at. rewrite (GS_toks _ _ _ _ _ _ _ _ _ H), (mix_nth_ge k (S k)) by lia. rewrite Ht.
   pose proof (plain_nth _ _ Ht) as P.
   assert (F : tok_filter t = true) by (destruct t; try reflexivity; try contradiction; exfalso; apply Hne; reflexivity).
-  rewrite F. cbn [bind]. exact Ht.
+  rewrite F. cbn [bind]. rewrite (mix_nth_ge k (S k)) by lia. exact Ht.
 Qed.
 Lemma take_separators_noop_G lvl_ (s : pstate) : o_semicolon (cur_tt pass s) = false -> take_separators_on_last_line pass lvl_ s = s.
 Proof. intros H. unfold take_separators_on_last_line, guard. destruct (has_err pass s); [reflexivity|]. rewrite H. reflexivity. Qed.
-Lemma caret_noop_G (s : pstate) : ps_toks pass s = T -> consolidate_current_caret_to_type pass s = s.
+Lemma caret_noop_G (s : pstate) : Forall plain (ps_toks pass s) -> consolidate_current_caret_to_type pass s = s.
 Proof.
   intros Tk. unfold consolidate_current_caret_to_type, upd_cur. destruct (idx0 pass s) as [i|]; [|reflexivity].
-  unfold tt_at. rewrite Tk. destruct (nth_error T i) as [t|] eqn:E; [|reflexivity]. pose proof (plain_nth _ _ E) as P.
+  unfold tt_at. destruct (nth_error (ps_toks pass s) i) as [t|] eqn:E; [|reflexivity].
+  pose proof (proj1 (Forall_forall _ _) Tk t (nth_error_In _ _ E)) as P.
   destruct t as [o| | | | | | | | | |]; try reflexivity. destruct o; try reflexivity; contradiction.
 Qed.
 Lemma GS_cur_is s k Ls cs M last cx lv a t : GS s k Ls cs M last cx lv a -> nth_error T k = Some t -> cur_is s t.
@@ -1600,8 +1663,8 @@ Proof.
   pose proof (Ht 2 _ eq_refl) as Hk2. replace (k + 2) with (S (S k)) in Hk2 by lia.
   assert (Hb : toks_at (S (S (S k))) (render_stmt c ++ [tSemi])).
   { replace (S (S (S k))) with (k + 3) by lia. apply (toks_at_shift k 3 [tIf; tI; tThen]); [exact Ht|reflexivity]. }
-  assert (Hkn : k < n) by (apply nth_error_Some; congruence).
-  assert (Hkn2 : S (S k) < n) by (apply nth_error_Some; congruence).
+  assert (Hkn : tokfin (k)) by tokfin_tac.
+  assert (Hkn2 : tokfin (S (S k))) by tokfin_tac.
   assert (Ml : length M = length L) by (destruct H as (_ & _ & Ml & _); exact Ml).
   destruct f as [|[|[|[|f]]]]; try lia.
   assert (E0 : ending_ctx pass s = None) by (rewrite (pos_ending stk _ _ _ _ _ _ _ _ _ _ _ _ P0 H Hk); apply (pos_start _ _ P0); reflexivity).
@@ -1617,7 +1680,7 @@ Proof.
   assert (CK : cur_kk pass s3 = Some KK_Then) by (unfold cur_kk; rewrite (ST_cur_tt stk _ _ _ _ _ _ _ _ _ _ _ H3 Hk2); reflexivity).
   rewrite CK.
   assert (LP : line_parent_of_current pass s3 = Some (length L, S (S k))).
-  { unfold line_parent_of_current. rewrite (ST_cur_index stk _ _ _ _ _ _ _ _ _ _ H3 Hkn2), (ST_cur_ref stk _ _ _ _ _ _ _ _ _ _ H3). reflexivity. }
+  { unfold line_parent_of_current. rewrite (ST_cur_index stk _ _ _ _ _ _ _ _ _ _ H3 (tokfin_lt _ Hkn2)), (ST_cur_ref stk _ _ _ _ _ _ _ _ _ _ H3). reflexivity. }
   rewrite LP.
   pose proof (next_token_ST stk _ _ _ _ _ _ _ _ _ _ H3 Hkn2) as H4. cbn [app] in H4.
   change (ctx (CT_Statement SK_Normal) false P_else (CL_Parent (length L, S (S k)) 1%N)) with (cCh true (length L, S (S k))).
@@ -1662,8 +1725,8 @@ Proof.
   pose proof (Ht 2 _ eq_refl) as Hk2. replace (k + 2) with (S (S k)) in Hk2 by lia.
   assert (Hb : toks_at (S (S (S k))) (render_stmt c ++ [tf])).
   { replace (S (S (S k))) with (k + 3) by lia. apply (toks_at_shift k 3 [tWhile; tI; tDo]); [exact Ht|reflexivity]. }
-  assert (Hkn : k < n) by (apply nth_error_Some; congruence).
-  assert (Hkn2 : S (S k) < n) by (apply nth_error_Some; congruence).
+  assert (Hkn : tokfin (k)) by tokfin_tac.
+  assert (Hkn2 : tokfin (S (S k))) by tokfin_tac.
   assert (Ml : length M = length L) by (destruct H as (_ & _ & Ml & _); exact Ml).
   destruct f as [|[|[|[|f]]]]; try lia.
   assert (E0 : ending_ctx pass s = None) by (rewrite (pos_ending stk _ _ _ _ _ _ _ _ _ _ _ _ P0 H Hk); apply (pos_start _ _ P0); reflexivity).
@@ -1680,7 +1743,7 @@ Proof.
   assert (CK : cur_kk pass s3 = Some KK_Do) by (unfold cur_kk; rewrite (ST_cur_tt stk _ _ _ _ _ _ _ _ _ _ _ H3 Hk2); reflexivity).
   rewrite CK.
   assert (LP : line_parent_of_current pass s3 = Some (length L, S (S k))).
-  { unfold line_parent_of_current. rewrite (ST_cur_index stk _ _ _ _ _ _ _ _ _ _ H3 Hkn2), (ST_cur_ref stk _ _ _ _ _ _ _ _ _ _ H3). reflexivity. }
+  { unfold line_parent_of_current. rewrite (ST_cur_index stk _ _ _ _ _ _ _ _ _ _ H3 (tokfin_lt _ Hkn2)), (ST_cur_ref stk _ _ _ _ _ _ _ _ _ _ H3). reflexivity. }
   rewrite LP.
   pose proof (next_token_ST stk _ _ _ _ _ _ _ _ _ _ H3 Hkn2) as H4. cbn [app] in H4.
   change (ctx (CT_Statement SK_Normal) false P_never (CL_Parent (length L, S (S k)) 1%N)) with (cCh false (length L, S (S k))).
@@ -1732,9 +1795,9 @@ Proof.
     apply (toks_at_shift _ _ (render_stmt c1 ++ [tElse])); [exact Ht3|reflexivity]. }
   assert (Hte : nth_error T el = Some tElse).
   { specialize (Hb1 (length (render_stmt c1)) tElse). rewrite nth_error_app2, Nat.sub_diag in Hb1 by lia. exact (Hb1 eq_refl). }
-  assert (Heln : el < n) by (apply nth_error_Some; congruence).
-  assert (Hkn : k < n) by (apply nth_error_Some; congruence).
-  assert (Hkn2 : S (S k) < n) by (apply nth_error_Some; congruence).
+  assert (Heln : tokfin (el)) by tokfin_tac.
+  assert (Hkn : tokfin (k)) by tokfin_tac.
+  assert (Hkn2 : tokfin (S (S k))) by tokfin_tac.
   assert (Ml : length M = length L) by (destruct H as (_ & _ & Ml & _); exact Ml).
   destruct f as [|[|[|[|f]]]]; try lia.
   assert (E0 : ending_ctx pass s = None) by (rewrite (pos_ending stk _ _ _ _ _ _ _ _ _ _ _ _ P0 H Hk); apply (pos_start _ _ P0); reflexivity).
@@ -1750,7 +1813,7 @@ Proof.
   assert (CK : cur_kk pass s3 = Some KK_Then) by (unfold cur_kk; rewrite (ST_cur_tt stk _ _ _ _ _ _ _ _ _ _ _ H3 Hk2); reflexivity).
   rewrite CK.
   assert (LP : line_parent_of_current pass s3 = Some (length L, S (S k))).
-  { unfold line_parent_of_current. rewrite (ST_cur_index stk _ _ _ _ _ _ _ _ _ _ H3 Hkn2), (ST_cur_ref stk _ _ _ _ _ _ _ _ _ _ H3). reflexivity. }
+  { unfold line_parent_of_current. rewrite (ST_cur_index stk _ _ _ _ _ _ _ _ _ _ H3 (tokfin_lt _ Hkn2)), (ST_cur_ref stk _ _ _ _ _ _ _ _ _ _ H3). reflexivity. }
   rewrite LP.
   pose proof (next_token_ST stk _ _ _ _ _ _ _ _ _ _ H3 Hkn2) as H4. cbn [app] in H4.
   change (ctx (CT_Statement SK_Normal) false P_else (CL_Parent (length L, S (S k)) 1%N)) with (cCh true (length L, S (S k))).
@@ -1765,7 +1828,7 @@ Proof.
   assert (CK5 : cur_kk pass s5 = Some KK_Else) by (unfold cur_kk; rewrite (GS_cur_tt _ _ _ _ _ _ _ _ _ _ G5 Hte); reflexivity).
   rewrite CK5.
   assert (LP5 : line_parent_of_current pass s5 = Some (length L, el)).
-  { unfold line_parent_of_current. rewrite (cur_index_G s5 el (GS_pidx _ _ _ _ _ _ _ _ _ G5) Heln), (GS_cur_ref _ _ _ _ _ _ _ _ _ _ G5). reflexivity. }
+  { unfold line_parent_of_current. rewrite (cur_index_G s5 el (GS_pidx _ _ _ _ _ _ _ _ _ G5) (tokfin_lt _ Heln)), (GS_cur_ref _ _ _ _ _ _ _ _ _ _ G5). reflexivity. }
   rewrite LP5.
   pose proof (next_token_GS _ _ _ _ _ _ _ _ _ _ G5 Heln) as G6.
   change (ctx (CT_Statement SK_Normal) false P_never (CL_Parent (length L, el) 1%N)) with (cCh false (length L, el)).
@@ -1820,8 +1883,8 @@ Lemma iter_arm stk bkc c X E f s k L0 PL M0 mcur MP last lv a t' :
      last' ((cBlk bkc, false) :: X) lv a.
 Proof.
   intros Hskc IHc P0 H Hm0 Hwf Hk Hk1 Hb He1 Hne HnE Hf e h pb.
-  assert (Hkn : k < n) by (apply nth_error_Some; congruence).
-  assert (Hkn1 : S k < n) by (apply nth_error_Some; congruence).
+  assert (Hkn : tokfin (k)) by tokfin_tac.
+  assert (Hkn1 : tokfin (S k)) by tokfin_tac.
   assert (Pk : plain tI) by exact I. assert (Pc : plain tColon) by exact I.
   assert (Hnd : notd X) by exact (pos_notd _ _ P0).
   pose proof (pos0_list bkc X Hnd) as PA.
@@ -1867,7 +1930,7 @@ Proof.
     rewrite (GS_at_start _ _ _ _ _ _ _ _ _ _ G2), (nth_mid_eq _ _ L0 [k] PL [] eq_refl eq_refl). reflexivity. }
   rewrite Pr2. cbn [negb starm_of tColon]. unfold st_colon.
   assert (LP : line_parent_of_current pass s2 = Some (length L0, S k)).
-  { unfold line_parent_of_current. rewrite (cur_index_G s2 (S k) (GS_pidx _ _ _ _ _ _ _ _ _ G2) Hkn1), (GS_cur_ref _ _ _ _ _ _ _ _ _ _ G2). reflexivity. }
+  { unfold line_parent_of_current. rewrite (cur_index_G s2 (S k) (GS_pidx _ _ _ _ _ _ _ _ _ G2) (tokfin_lt _ Hkn1)), (GS_cur_ref _ _ _ _ _ _ _ _ _ _ G2). reflexivity. }
   rewrite LP.
   pose proof (next_token_GS _ _ _ _ _ _ _ _ _ _ G2 Hkn1) as G3.
   rewrite (upd_nth_mid_eq _ _ _ L0 [k] PL eq_refl eq_refl) in G3. cbn [app] in G3.
@@ -1904,7 +1967,7 @@ Proof.
     by (try exact Hlen; repeat (progress (cbn [app]; rewrite <- ?app_assoc)); reflexivity).
   cbn [lm_parent lm_level] in G7.
   match type of G7 with GS ?x _ _ _ _ _ _ _ _ => set (s7 := x) in * end.
-  rewrite (caret_noop_G s7 (GS_toks _ _ _ _ _ _ _ _ _ G7)). unfold t_loop.
+  rewrite (caret_noop_G s7 (toks_plain_G s7 _ (GS_toks _ _ _ _ _ _ _ _ _ G7))). unfold t_loop.
   (* back in parse_statement and parse_structures: the statement context has ended *)
   rewrite (statement_stop_G _ s7 t' _ _ _ 1 (GS_err _ _ _ _ _ _ _ _ _ G7) (GS_cur_is _ _ _ _ _ _ _ _ _ _ G7 He1) HnE
              (GS_ctx _ _ _ _ _ _ _ _ _ G7) (ending_G_ended s7 _ _ (GS_ctx _ _ _ _ _ _ _ _ _ G7))).
@@ -2181,7 +2244,7 @@ Proof.
   pose proof (toks_at_0 _ _ _ Hts eq_refl) as Hfo.
   pose proof HP as [P0 _].
   assert (Tm : tTerm (if ex then KTryE else KTry) = tm) by (destruct ex; reflexivity).
-  pose proof (core_try stk (first_parent X) ex X E pp b c f _ _ _ _ _ _ _ _ tf j HP Hl
+  pose proof (core_try stk (first_parent X) ex X E pp b (render c) (need c) (fun k li => pexpected (first_parent X) (1 + plain_sum X) k li c) f _ _ _ _ _ _ _ _ tf j HP Hl
                 (IHb stk _ (if ex then KTryE else KTry) X ltac:(destruct ex; discriminate) (pos_notd _ _ P0) eq_refl Hwb)
                 (IHc stk _ (if ex then KExcept else KFinally) X ltac:(destruct ex; discriminate) (pos_notd _ _ P0) eq_refl Hwc) eq_refl H Hty Hk) as H1.
   cbv zeta in H1. rewrite Tm in H1. specialize (H1 Htb Htc Hfo Ej NE ltac:(unfold need; lia)). fold m in H1.
@@ -2246,8 +2309,8 @@ Lemma case_head stk bkc a X E f s k L M mc last lv a0 :
     /\ j = length L + 1 + length pre.
 Proof.
   intros Hbk IHa [P0 _] H Hwf Hk Hk1 Hk2 Hb Hf par d ke pre j pl s5.
-  assert (Hkn : k < n) by (apply nth_error_Some; congruence).
-  assert (Hkn2 : S (S k) < n) by (apply nth_error_Some; congruence).
+  assert (Hkn : tokfin (k)) by tokfin_tac.
+  assert (Hkn2 : tokfin (S (S k))) by tokfin_tac.
   assert (Ml : length M = length L) by (destruct H as (_ & _ & Ml & _); exact Ml).
   destruct f as [|[|[|f]]]; try lia.
   destruct Hbk as [-> | ->].
@@ -2327,7 +2390,7 @@ Proof.
   pose proof (toks_at_0 _ _ _ Hts eq_refl) as Hfo.
   assert (Hke : nth_error T ke = Some tEnd).
   { specialize (Hb (length (render_arms a)) tEnd). rewrite nth_error_app2, Nat.sub_diag in Hb by lia. exact (Hb eq_refl). }
-  assert (Hken : ke < n) by (apply nth_error_Some; congruence).
+  assert (Hken : tokfin (ke)) by tokfin_tac.
   destruct f as [|[|[|f]]]; try lia.
   assert (E0 : ending_ctx pass s = None) by (rewrite (pos_ending stk _ _ _ _ _ _ _ _ _ _ _ _ P0 H Hk); apply (pos_start _ _ P0); reflexivity).
   rewrite (run_S _ C_structures _ (ST_err stk _ _ _ _ _ _ _ _ _ _ H)).
@@ -2410,10 +2473,10 @@ Proof.
   pose proof (toks_at_0 _ _ _ Hts eq_refl) as Hfo.
   assert (Hke : nth_error T ke = Some tElse).
   { specialize (Hb (length (render_arms a)) tElse). rewrite nth_error_app2, Nat.sub_diag in Hb by lia. exact (Hb eq_refl). }
-  assert (Hken : ke < n) by (apply nth_error_Some; congruence).
+  assert (Hken : tokfin (ke)) by tokfin_tac.
   assert (Hkee : nth_error T kee = Some tEnd).
   { specialize (Hbe (length (render el)) tEnd). rewrite nth_error_app2, Nat.sub_diag in Hbe by lia. exact (Hbe eq_refl). }
-  assert (Hkeen : kee < n) by (apply nth_error_Some; congruence).
+  assert (Hkeen : tokfin (kee)) by tokfin_tac.
   assert (Ml : length M = length L) by (destruct H as (_ & _ & Ml & _); exact Ml).
   destruct f as [|[|[|[|f]]]]; try lia.
   assert (E0 : ending_ctx pass s = None) by (rewrite (pos_ending stk _ _ _ _ _ _ _ _ _ _ _ _ P0 H Hk); apply (pos_start _ _ P0); reflexivity).
@@ -2567,16 +2630,281 @@ Proof.
   eapply (ST_lists stk); [exact H4| |]; rewrite !map_app; repeat (progress (cbn [app]; rewrite <- ?app_assoc)); reflexivity.
 Qed.
 
+
+(* ================================================================== *)
+(* exception handlers: `on Identifier : Identifier do c ;` in an except block; `on` is re-typed *)
+Lemma mix_retype k t : nth_error T k = Some t -> mix (S k) = upd_nth k (fun _ => fin t) (mix k).
+Proof.
+  intros Ht. unfold mix. revert k Ht. generalize T as l.
+  induction l as [|a l IH]; intros [|k] Ht; cbn in Ht; try discriminate.
+  - injection Ht as ->. reflexivity.
+  - cbn [firstn skipn map app upd_nth]. f_equal. apply IH, Ht.
+Qed.
+Lemma retype_next_ST stk s k L c M mc last cx lv a kw :
+  ST stk s k L c M mc last cx lv a -> nth_error T k = Some (RTT_IdentifierOrKeyword kw) ->
+  fin (RTT_IdentifierOrKeyword kw) = RTT_Keyword kw ->
+  has_err pass (consolidate_current_keyword pass s) = false /\
+  ST stk (next_token pass (consolidate_current_keyword pass s)) (S k) L (c ++ [k]) M mc last cx lv a.
+Proof.
+  intros H Hk Hf. pose proof (ST_err stk _ _ _ _ _ _ _ _ _ _ H) as E.
+  assert (Hkn : k < n) by (apply nth_error_Some; congruence).
+  assert (Tk : ps_toks pass s = mix k) by exact (ST_toks stk _ _ _ _ _ _ _ _ _ _ H).
+  assert (Ec : consolidate_current_keyword pass s = set_toks pass (mix (S k)) s).
+  { unfold consolidate_current_keyword, upd_cur, idx0. rewrite (ST_cur_index stk _ _ _ _ _ _ _ _ _ _ H Hkn).
+    unfold tt_at. rewrite Tk, (mix_nth_ge k k (le_n k)), Hk. cbn [bind]. rewrite (mix_nth_ge k k (le_n k)), Hk. cbn [bind].
+    unfold set_tok, guard. rewrite E, Tk, (mix_retype k _ Hk), Hf. reflexivity. }
+  rewrite Ec. set (s' := set_toks pass (mix (S k)) s).
+  assert (E' : has_err pass s' = false) by exact E.
+  split; [exact E'|].
+  destruct (next_token_G s' (mix (S k)) k E' eq_refl (mix_plain (S k)) (ST_pidx stk _ _ _ _ _ _ _ _ _ _ H) Hkn (mix_length (S k))) as (K1 & M1 & R1).
+  destruct H as (K & Mt & Ml & R). split; [|split; [|split]].
+  - rewrite K1. change (kst pass s') with (kst pass s). rewrite K. cbn [k_step k_pi k_lines k_cur k_last k_top hd].
+    rewrite (nth_error_seq0 _ _ Hkn). rewrite upd_nth_app_last. reflexivity.
+  - rewrite M1. exact Mt.
+  - exact Ml.
+  - rewrite R1. unfold restv in *. subst s'. cbn. injection R as R1' R2 R3 R4 R5 R6 R7. rewrite R2, R3, R4, R5, R6, R7. reflexivity.
+Qed.
+
+(* the line section `Identifier : Identifier do` of a handler header *)
+Lemma line_section_on stk f s k L c M mc last r lv a :
+  ST stk s k L c M mc last r lv a -> c <> [] -> lm_type mc = LLT_Unknown ->
+  nth_error T k = Some tI -> nth_error T (S k) = Some tColon -> nth_error T (S (S k)) = Some tI -> nth_error T (S (S (S k))) = Some tDo ->
+  6 <= f ->
+  ST stk (RUN f (C_line_section (cUtp HDo)) s) (S (S (S k))) L (c ++ [k; S k; S (S k)]) M mc last r lv a.
+Proof.
+  intros H Hc Hty Hk Hk1 Hk2 Hk3 Hf. destruct f as [|[|[|[|[|[|f]]]]]]; try lia.
+  assert (Hkn : tokfin k) by tokfin_tac. assert (Hkn1 : tokfin (S k)) by tokfin_tac. assert (Hkn2 : tokfin (S (S k))) by tokfin_tac.
+  rewrite (run_S _ (C_line_section _) _ (ST_err stk _ _ _ _ _ _ _ _ _ _ H)). unfold arm_line_section.
+  pose proof (push_ctx_ST stk (cUtp HDo) _ _ _ _ _ _ _ _ _ _ H) as H1.
+  match type of H1 with ST _ ?x _ _ _ _ _ _ _ _ _ => set (s1 := x) in * end.
+  assert (E1 : ending_ctx pass s1 = None) by (rewrite (ending_Ut stk _ _ _ _ _ _ _ _ _ _ _ _ H1 Hk); reflexivity).
+  (* Identifier (not at the start of the line) *)
+  rewrite (run_S _ C_statement _ (ST_err stk _ _ _ _ _ _ _ _ _ _ H1)).
+  unfold arm_statement. rewrite (ST_cur_tt stk _ _ _ _ _ _ _ _ _ _ _ H1 Hk). cbn [tI].
+  rewrite (prelude_none stk _ _ _ _ _ _ _ _ _ _ _ _ H1 E1 I). cbn [negb starm_of tI].
+  unfold st_label_cand, label_or_other. rewrite (ST_at_start stk _ _ _ _ _ _ _ _ _ _ H1).
+  destruct c as [|c0 cr]; [contradiction|]. cbn [andb]. unfold t_other, t_loop.
+  pose proof (next_token_ST stk _ _ _ _ _ _ _ _ _ _ H1 Hkn) as H2.
+  match type of H2 with ST _ ?x _ _ _ _ _ _ _ _ _ => set (s2 := x) in * end.
+  (* the colon *)
+  assert (E2 : ending_ctx pass s2 = None) by (rewrite (ending_Ut stk _ _ _ _ _ _ _ _ _ _ _ _ H2 Hk1); reflexivity).
+  rewrite (run_S _ C_statement _ (ST_err stk _ _ _ _ _ _ _ _ _ _ H2)).
+  unfold arm_statement. rewrite (ST_cur_tt stk _ _ _ _ _ _ _ _ _ _ _ H2 Hk1). cbn [tColon].
+  rewrite (prelude_none stk _ _ _ _ _ _ _ _ _ _ _ _ H2 E2 I). cbn [negb starm_of tColon]. unfold st_colon.
+  assert (LP : line_parent_of_current pass s2 = Some (length L, S k)).
+  { unfold line_parent_of_current. rewrite (ST_cur_index stk _ _ _ _ _ _ _ _ _ _ H2 (tokfin_lt _ Hkn1)), (ST_cur_ref stk _ _ _ _ _ _ _ _ _ _ H2). reflexivity. }
+  rewrite LP.
+  pose proof (next_token_ST stk _ _ _ _ _ _ _ _ _ _ H2 Hkn1) as H3.
+  match type of H3 with ST _ ?x _ _ _ _ _ _ _ _ _ => set (s3 := x) in * end.
+  rewrite (ST_cur_type stk _ _ _ _ _ _ _ _ _ _ H3), Hty. cbn [llt_is LogicalLineType_eqb LogicalLineType_idx Nat.eqb].
+  assert (LC : last_ctype pass s3 = Some CT_Utility) by (unfold last_ctype; rewrite (last_ctx_ST stk _ _ _ _ _ _ _ _ _ _ _ _ H3); reflexivity).
+  rewrite LC. unfold t_loop.
+  rewrite (caret_noop_G s3 (toks_plain_G s3 _ (ST_toks stk _ _ _ _ _ _ _ _ _ _ H3))).
+  (* Identifier, then `do` ends the section *)
+  assert (E3 : ending_ctx pass s3 = None) by (rewrite (ending_Ut stk _ _ _ _ _ _ _ _ _ _ _ _ H3 Hk2); reflexivity).
+  rewrite (statement_ident stk _ _ _ _ _ _ _ _ _ _ _ _ _ _ H3 Hk2 Hk3 ltac:(discriminate) eq_refl E3 I).
+  pose proof (next_token_ST stk _ _ _ _ _ _ _ _ _ _ H3 Hkn2) as H4.
+  assert (E4 : ending_ctx pass (next_token pass s3) = Some 1) by (rewrite (ending_Ut stk _ _ _ _ _ _ _ _ _ _ _ _ H4 Hk3); reflexivity).
+  rewrite (statement_stop stk _ _ _ _ _ _ _ _ _ _ _ _ _ _ _ H4 Hk3 ltac:(discriminate) E4).
+  pose proof (update_statuses_ST stk 1 _ _ _ _ _ _ _ _ _ _ H4) as H5. cbn [mark_ended] in H5.
+  pose proof (pop_ctx_ST stk _ _ _ _ _ _ _ _ _ _ _ H5) as H6.
+  rewrite <- !app_assoc in H6. cbn [app] in H6. exact H6.
+Qed.
+
+(* one handler in the statement-list loop of an except block *)
+Lemma iter_on stk par c C f s k Ls M mc last lv a t2 :
+  Pcore c -> notd C -> first_parent C = par ->
+  ST stk s k Ls [] M mc last ((cBlk KExcept, false) :: C) lv a -> wf_stmt c = true ->
+  toks_at k ([tOn; tI; tColon; tI; tDo] ++ (render_stmt c ++ [tSemi])) ->
+  nth_error T (S (k + 5 + length (render_stmt c))) = Some t2 -> t2 <> tSemi -> t2 <> RTT_Eof ->
+  30 + need_stmt c <= f ->
+  let d := (1 + plain_sum C)%Z in
+  let e := k + 5 + length (render_stmt c) in
+  let SL := mkLine LLT_Unknown (lvl d) par [k; k + 1; k + 2; k + 3; k + 4]
+            :: sexpected (Some (length Ls, k + 4)) 1 (k + 5) (length Ls + 1) [e] c ++ [stray] in
+  ST stk (take_separators_on_last_line pass (CL_Level 0%Z) (finish_logical_line pass (RUN f (C_with_ctx (cStk KExcept) A_structures) s)))
+     (S e) (Ls ++ map ll_toks SL) [] (M ++ map meta_of SL) (mkLM None (lvl d) LLT_Unknown) (length Ls) ((cBlk KExcept, false) :: C) lv a.
+Proof.
+  intros IH Hnd HC H Hwf Ht Ht2 N2 N3 Hf d e SL.
+  pose proof (Ht 0 _ eq_refl) as Hk. rewrite Nat.add_0_r in Hk.
+  pose proof (Ht 1 _ eq_refl) as Hk1. replace (k + 1) with (S k) in Hk1 by lia.
+  pose proof (Ht 2 _ eq_refl) as Hk2. replace (k + 2) with (S (S k)) in Hk2 by lia.
+  pose proof (Ht 3 _ eq_refl) as Hk3. replace (k + 3) with (S (S (S k))) in Hk3 by lia.
+  pose proof (Ht 4 _ eq_refl) as Hk4. replace (k + 4) with (S (S (S (S k)))) in Hk4 by lia.
+  assert (Hb : toks_at (S (S (S (S (S k))))) (render_stmt c ++ [tSemi])).
+  { replace (S (S (S (S (S k))))) with (k + 5) by lia. apply (toks_at_shift k 5 [tOn; tI; tColon; tI; tDo]); [exact Ht|reflexivity]. }
+  assert (Hkn4 : tokfin (S (S (S (S k))))) by tokfin_tac.
+  assert (Ml : length M = length Ls) by (destruct H as (_ & _ & Ml & _); exact Ml).
+  pose proof (pos_list KExcept C ltac:(discriminate) Hnd) as HP. pose proof HP as [P0 _].
+  destruct f as [|[|[|[|[|f]]]]]; try lia.
+  rewrite (with_ctx_structures _ (cStk KExcept) s (ST_err stk _ _ _ _ _ _ _ _ _ _ H) eq_refl).
+  pose proof (finish_empty_ST stk _ _ _ _ _ _ _ _ _ H) as H0.
+  pose proof (push_ctx_ST stk (cStk KExcept) _ _ _ _ _ _ _ _ _ _ H0) as H1. fold (Xl KExcept C) in H1.
+  match type of H1 with ST _ ?x _ _ _ _ _ _ _ _ _ => set (s1 := x) in * end.
+  assert (E0 : ending_ctx pass s1 = None) by (rewrite (pos_ending stk _ _ _ _ _ _ _ _ _ _ _ _ P0 H1 Hk); reflexivity).
+  rewrite (run_S _ C_structures _ (ST_err stk _ _ _ _ _ _ _ _ _ _ H1)).
+  unfold arm_structures. rewrite (ST_cur_tt stk _ _ _ _ _ _ _ _ _ _ _ H1 Hk), E0. cbn [tOn sarm_of].
+  unfold sa_on. assert (LC : last_ctype pass s1 = Some (CT_Statement SK_Except)) by (unfold last_ctype; rewrite (last_ctx_ST stk _ _ _ _ _ _ _ _ _ _ _ _ H1); reflexivity).
+  rewrite LC. unfold s_loop.
+  destruct (retype_next_ST stk _ _ _ _ _ _ _ _ _ _ KK_On H1 Hk eq_refl) as [Ec H2]. cbn [app] in H2.
+  rewrite (run_S _ (C_do false) _ Ec). unfold arm_do.
+  change (ctx CT_Utility true P_kw_do (ParserGrammar.L 0)) with (cUtp HDo).
+  pose proof (set_line_type_ST stk LLT_Unknown _ _ _ _ _ _ _ _ _ _ H2) as H2'. cbn [lm_parent lm_level] in H2'.
+  pose proof (line_section_on stk (S (S f)) _ _ _ _ _ _ _ _ _ _ H2' ltac:(discriminate) eq_refl Hk1 Hk2 Hk3 Hk4 ltac:(lia)) as H3. cbn [app] in H3.
+  match type of H3 with ST _ ?x _ _ _ _ _ _ _ _ _ => set (s3 := x) in * end.
+  cbv zeta.
+  assert (CK : cur_kk pass s3 = Some KK_Do) by (unfold cur_kk; rewrite (ST_cur_tt stk _ _ _ _ _ _ _ _ _ _ _ H3 Hk4); reflexivity).
+  rewrite CK.
+  assert (LP : line_parent_of_current pass s3 = Some (length Ls, S (S (S (S k))))).
+  { unfold line_parent_of_current. rewrite (ST_cur_index stk _ _ _ _ _ _ _ _ _ _ H3 (tokfin_lt _ Hkn4)), (ST_cur_ref stk _ _ _ _ _ _ _ _ _ _ H3). reflexivity. }
+  rewrite LP.
+  pose proof (next_token_ST stk _ _ _ _ _ _ _ _ _ _ H3 Hkn4) as H4. cbn [app] in H4.
+  change (ctx (CT_Statement SK_Normal) false P_never (CL_Parent (length Ls, S (S (S (S k)))) 1%N)) with (cCh false (length Ls, S (S (S (S k))))).
+  pose proof (ST_GS stk _ _ _ _ _ _ _ _ _ _ H4) as G4.
+  set (s4 := next_token pass s3) in *.
+  assert (Hn' : tSemi = tSemi -> nth_error T (S (S (S (S (S (S k)))) + length (render_stmt c))) = Some t2 /\ t2 <> tSemi /\ t2 <> RTT_Eof).
+  { intros _. replace (S (S (S (S (S (S k)))) + length (render_stmt c))) with (S (k + 5 + length (render_stmt c))) by lia. repeat split; assumption. }
+  pose proof (child_final stk false (CL_Parent (length Ls, S (S (S (S k)))) 1%N) (length Ls, S (S (S (S k)))) c (Xl KExcept C) (El KExcept) true
+                (S (S f)) (S (S f)) _ _ _ _ _ _ _ _ tSemi 0 t2 IH HP (fun _ => lvl0_list KExcept C) G4) as CF.
+  rewrite nth_app_last in CF.
+  specialize (CF ltac:(discriminate) ltac:(rewrite app_length; cbn [length]; lia) Hwf ltac:(discriminate) Hb (or_introl eq_refl) eq_refl ltac:(discriminate) Hn'
+                ltac:(lia)).
+  cbv zeta in CF. cbn [is_semi tSemi optpop optpopc mark_ended Xl tl] in CF.
+  rewrite <- Ml, upd_nth_app_last in CF. cbn [lm_type] in CF. rewrite Ml in CF.
+  unfold Xl in CF. rewrite (first_parent_St_blk KExcept), (plain_sum_St_blk KExcept), HC in CF.
+  replace (0 + (1 + plain_sum C))%Z with d in CF by (unfold d; lia).
+  match type of CF with ST _ ?x _ _ _ _ _ _ _ _ _ => set (s9 := x) in * end.
+  rewrite (take_separators_noop stk _ _ _ _ _ _ _ _ _ _ _ t2 CF).
+  2: { replace (S (S (S (S (S (S k)))) + length (render_stmt c))) with (S (k + 5 + length (render_stmt c))) by lia. exact Ht2. }
+  2: exact N2.
+  subst SL. replace (k + 1) with (S k) by lia. replace (k + 2) with (S (S k)) by lia. replace (k + 3) with (S (S (S k))) by lia.
+  replace (k + 4) with (S (S (S (S k)))) by lia. replace (k + 5) with (S (S (S (S (S k))))) by lia.
+  replace (length Ls + 1) with (length (Ls ++ [[k; S k; S (S k); S (S (S k)); S (S (S (S k)))]])) by (rewrite app_length; reflexivity).
+  replace (S e) with (S (S (S (S (S (S k)))) + length (render_stmt c))) by (unfold e; lia).
+  replace e with (S (S (S (S (S k)))) + length (render_stmt c)) by (unfold e; lia).
+  eapply (ST_lists stk); [exact CF| |].
+  - cbn [map ll_toks]. rewrite map_app. cbn [map ll_toks stray]. repeat (progress (cbn [app]; rewrite <- ?app_assoc)). reflexivity.
+  - cbn [map meta_of ll_parent ll_level ll_type]. rewrite map_app. cbn [map meta_of stray ll_parent ll_level ll_type].
+    repeat (progress (cbn [app]; rewrite <- ?app_assoc)). reflexivity.
+Qed.
+
+(* the statement-list loop of an except block over its handlers *)
+Definition needh (h : handlers) : nat := 10 + 10 * length (render_handlers h).
+Definition IHforH stk par (h : handlers) (C : list (pctx * bool)) : Prop :=
+  forall f s k Ls M mc last lv a li, needh h <= f -> li = length Ls -> ST stk s k Ls [] M mc last ((cBlk KExcept, false) :: C) lv a ->
+  toks_at k (render_handlers h ++ [tTerm KExcept]) ->
+  exists mc' last' fl, lm_type mc' = LLT_Unknown /\
+    ST stk (RUN f (slc KExcept) s) (k + length (render_handlers h))
+       (Ls ++ map ll_toks (hexpected par (1 + plain_sum C) k li h)) [] (M ++ map meta_of (hexpected par (1 + plain_sum C) k li h))
+       mc' last' ((cBlk KExcept, fl) :: C) lv a.
+Definition Phand (h : handlers) : Prop :=
+  forall stk par C, notd C -> first_parent C = par -> wf_handlers h = true -> IHforH stk par h C.
+Lemma phand_nil : Phand HNil.
+Proof.
+  intros stk par C Hnd HC Hwf f s k Ls M mc last lv a li Hf Hli H Ht.
+  exact (plist_nil stk par KExcept C ltac:(discriminate) Hnd HC eq_refl f s k Ls M mc last lv a li Hf Hli H Ht).
+Qed.
+Lemma phand_cons c r : Pcore c -> Phand r -> Phand (HCons c r).
+Proof.
+  intros Pc IHr stk par C Hnd HC Hwf f s k Ls M mc last lv a li Hf Hli H Ht; subst li.
+  cbn [wf_handlers] in Hwf. apply andb_prop in Hwf. destruct Hwf as [Hwc Hwr].
+  unfold needh in Hf. cbn [render_handlers length] in *. rewrite app_length in Hf. cbn [length] in Hf. destruct f as [|f]; try lia.
+  assert (Eq : (tOn :: tI :: tColon :: tI :: tDo :: render_stmt c ++ tSemi :: render_handlers r) ++ [tEnd]
+               = ([tOn; tI; tColon; tI; tDo] ++ (render_stmt c ++ [tSemi])) ++ (render_handlers r ++ [tEnd])).
+  { cbn [app]. rewrite <- !app_assoc. reflexivity. }
+  cbn [tTerm] in Ht. rewrite Eq in Ht.
+  assert (Hb : toks_at k ([tOn; tI; tColon; tI; tDo] ++ (render_stmt c ++ [tSemi]))) by (eapply toks_at_prefix; exact Ht).
+  set (e := k + 5 + length (render_stmt c)).
+  assert (Htr : toks_at (S e) (render_handlers r ++ [tEnd])).
+  { replace (S e) with (k + length ([tOn; tI; tColon; tI; tDo] ++ (render_stmt c ++ [tSemi]))) by (cbn [app length]; rewrite app_length; cbn [length]; unfold e; lia).
+    apply (toks_at_shift _ _ ([tOn; tI; tColon; tI; tDo] ++ (render_stmt c ++ [tSemi]))); [exact Ht|reflexivity]. }
+  assert (Ht' : exists t2, nth_error (render_handlers r ++ [tEnd]) 0 = Some t2 /\ t2 <> tSemi /\ t2 <> RTT_Eof
+                /\ ((r = HNil /\ t2 = tEnd) \/ (r <> HNil /\ t2 = tOn))).
+  { destruct r as [|c2 r2]; cbn; eexists; (split; [reflexivity|]); repeat split; try discriminate.
+    - left. split; reflexivity.
+    - right. split; [discriminate|reflexivity]. }
+  destruct Ht' as (t2 & H0 & N1 & NE & Hcase).
+  pose proof (toks_at_0 _ _ _ Htr H0) as Ht2.
+  unfold slc. rewrite (stmt_list_unfold _ _ _ _ _ (ST_err stk _ _ _ _ _ _ _ _ _ _ H)). cbv zeta.
+  change (ctx (CT_Statement (sk_of KExcept)) false P_semicolon (ParserGrammar.L 0)) with (cStk KExcept).
+  change (ParserGrammar.L 0) with (CL_Level 0%Z).
+  pose proof (iter_on stk par c C f _ _ _ _ _ _ _ _ t2 Pc Hnd HC H Hwc Hb Ht2 N1 NE ltac:(unfold need_stmt; lia)) as S2.
+  cbv zeta in S2. fold e in S2.
+  match type of S2 with ST _ ?x _ _ _ _ _ _ _ _ _ => set (s3 := x) in * end.
+  rewrite (is_ending_SB stk KExcept _ _ _ _ _ _ _ _ _ _ _ S2 Ht2).
+  cbn [hexpected]. cbv zeta. fold e.
+  set (SL := mkLine LLT_Unknown (lvl (1 + plain_sum C)) par [k; k + 1; k + 2; k + 3; k + 4]
+             :: sexpected (Some (length Ls, k + 4)) 1 (k + 5) (length Ls + 1) [e] c ++ [stray]) in *.
+  replace (k + S (S (S (S (S (length (render_stmt c ++ tSemi :: render_handlers r))))))) with (S e + length (render_handlers r))
+    by (rewrite app_length; cbn [length]; unfold e; lia).
+  replace (e + 1) with (S e) by lia.
+  destruct Hcase as [[-> ->]|[Hr ->]].
+  - (* the last handler *)
+    cbn [is_term tEnd orb hexpected map render_handlers length]. rewrite !app_nil_r, Nat.add_0_r.
+    eexists _, _, _. split; [|exact S2]. reflexivity.
+  - cbn [is_term tOn]. rewrite (ST_cur_tt stk _ _ _ _ _ _ _ _ _ _ _ S2 Ht2). cbn [tOn orb].
+    pose proof (fun Hli => IHr stk par C Hnd HC Hwr f _ _ _ _ _ _ _ _ (length Ls + length SL) ltac:(unfold needh; lia) Hli S2 Htr) as IH'.
+    destruct (IH' ltac:(rewrite app_length, map_length; reflexivity)) as (mc' & last' & fl & Ty & H4).
+    exists mc', last', fl. split; [exact Ty|].
+    eapply (ST_lists stk); [exact H4| |]; rewrite !map_app; repeat (progress (cbn [app]; rewrite <- ?app_assoc)); reflexivity.
+Qed.
+
+Lemma Pcore_tryon b h : Plist b -> Phand h -> Pcore (TTryOn b h).
+Proof.
+  intros IHb IHh stk X E pp f s k L M mc last lv a tf j t2 HP Hl H Hty Hwf Hcl Ht Htf Ej Hn Hf cons e SL.
+  destruct (tf_not_eof tf Htf) as (NE & _ & _).
+  cbn [render_stmt wf_stmt] in *. apply andb_prop in Hwf. destruct Hwf as [Hwb Hwh].
+  unfold need_stmt in Hf. cbn [render_stmt length] in Hf. rewrite !app_length in Hf. cbn [length] in Hf. rewrite app_length in Hf. cbn [length] in Hf.
+  assert (Eq : (tTry :: render b ++ tExcept :: render_handlers h ++ [tEnd]) ++ [tf] = [tTry] ++ (render b ++ [tExcept]) ++ (render_handlers h ++ [tEnd]) ++ [tf]).
+  { cbn [app]. rewrite <- !app_assoc. cbn [app]. rewrite <- !app_assoc. reflexivity. }
+  rewrite Eq in Ht.
+  pose proof (Ht 0 _ eq_refl) as Hk. rewrite Nat.add_0_r in Hk.
+  assert (Htb : toks_at (S k) (render b ++ [tExcept])).
+  { replace (S k) with (k + 1) by lia. eapply toks_at_prefix. apply (toks_at_shift k 1 [tTry]); [exact Ht|reflexivity]. }
+  set (m := S k + length (render b)).
+  assert (Ht2 : toks_at (S m) ((render_handlers h ++ [tEnd]) ++ [tf])).
+  { replace (S m) with (k + 1 + length (render b ++ [tExcept])) by (rewrite app_length; cbn [length]; unfold m; lia).
+    apply (toks_at_shift (k + 1) _ (render b ++ [tExcept])); [|reflexivity]. apply (toks_at_shift k 1 [tTry]); [exact Ht|reflexivity]. }
+  assert (Htc : toks_at (S m) (render_handlers h ++ [tEnd])) by (eapply toks_at_prefix; exact Ht2).
+  assert (Hts : toks_at (S (S m + length (render_handlers h))) [tf]).
+  { replace (S (S m + length (render_handlers h))) with (S m + length (render_handlers h ++ [tEnd])) by (rewrite app_length; cbn [length]; lia).
+    apply (toks_at_shift (S m) _ (render_handlers h ++ [tEnd])); [exact Ht2|reflexivity]. }
+  pose proof (toks_at_0 _ _ _ Hts eq_refl) as Hfo.
+  pose proof HP as [P0 _].
+  pose proof (core_try stk (first_parent X) true X E pp b (render_handlers h) (needh h) (fun k li => hexpected (first_parent X) (1 + plain_sum X) k li h)
+                f _ _ _ _ _ _ _ _ tf j HP Hl
+                (IHb stk _ KTryE X ltac:(discriminate) (pos_notd _ _ P0) eq_refl Hwb)
+                (IHh stk _ X (pos_notd _ _ P0) eq_refl Hwh) eq_refl H Hty Hk) as H1.
+  cbv zeta in H1. cbn [tTerm] in H1. specialize (H1 Htb Htc Hfo Ej NE ltac:(unfold need, needh; lia)). fold m in H1.
+  eexists. subst cons e SL. cbn [selfterm andb sexpected render_stmt length]. cbv zeta. split.
+  - replace (k + 1) with (S k) by lia. replace (length L + 1) with (S (length L)) by lia.
+    replace (plain_sum X + 1)%Z with (1 + plain_sum X)%Z by lia. fold m. replace (m + 1) with (S m) by lia.
+    replace (k + S (length (render b ++ tExcept :: render_handlers h ++ [tEnd]))) with (S (S m + length (render_handlers h)))
+      by (rewrite !app_length; cbn [length]; rewrite app_length; cbn [length]; unfold m; lia).
+    eapply (ST_lists stk); [exact H1| |]; cbn [map]; repeat (rewrite map_app; cbn [map]); cbn [map app ll_toks];
+      repeat (progress (cbn [app]; rewrite <- ?app_assoc)); reflexivity.
+  - intros _.
+    exists (mkLine LLT_Unknown (lvl (plain_sum X)) (first_parent X) [k] :: pexpected (first_parent X) (plain_sum X + 1) (k + 1) (length L + 1) b
+            ++ mkLine LLT_Unknown (lvl (plain_sum X)) (first_parent X) [k + 1 + length (render b)]
+            :: hexpected (first_parent X) (plain_sum X + 1) (k + 1 + length (render b) + 1)
+                 (length L + 1 + length (pexpected (first_parent X) (plain_sum X + 1) (k + 1) (length L + 1) b) + 1) h),
+      LLT_Unknown, [k + 1 + length (render b) + 1 + length (render_handlers h)], []. split; [discriminate|]. split.
+    + intros sm. cbn [sexpected]. cbv zeta. cbn [app]. rewrite <- app_assoc. cbn [app]. reflexivity.
+    + cbn [length]. rewrite ?app_length. cbn [length]. replace (k + 1) with (S k) by lia. replace (length L + 1) with (S (length L)) by lia.
+      replace (plain_sum X + 1)%Z with (1 + plain_sum X)%Z by lia. fold m. replace (m + 1) with (S m) by lia. lia.
+Qed.
+
 (* ---------------- every statement list of the fragment *)
 Theorem stmts_run : forall ss, Plist ss.
 Proof.
-  apply (stmts_mut Pcore Plist Parms).
+  apply (stmts_mut Pcore Plist Parms Phand).
   - exact Pcore_simple.
   - exact Pcore_assign.
   - exact Pcore_block.
   - exact Pcore_repeat.
   - intros b IHb c IHc. exact (Pcore_try false b c IHb IHc).
   - intros b IHb c IHc. exact (Pcore_try true b c IHb IHc).
+  - intros b IHb h IHh. exact (Pcore_tryon b h IHb IHh).
   - exact Pcore_if.
   - intros c1 H1 c2 H2. exact (Pcore_ifelse c1 c2 H1 H2).
   - exact Pcore_while.
@@ -2586,6 +2914,8 @@ Proof.
   - intros c Hc r Hr. exact (plist_cons c r Hc Hr).
   - exact arms_nil_run.
   - intros c Hc r Hr. exact (arms_cons_run c r Hc Hr).
+  - exact phand_nil.
+  - intros c Hc r Hr. exact (phand_cons c r Hc Hr).
 Qed.
 
 (* ---------------- a whole program: `begin` ss `end` `.` Eof *)
@@ -2605,7 +2935,7 @@ Theorem prog_run ss f s0 mc0 last0 lv a :
 Proof.
   intros Hwf H Ht0 Htb HtD HtE Hn Hf e.
   destruct f as [|[|[|[|[|[|[|f]]]]]]]; try lia.
-  assert (H0n : 0 < n) by lia.
+  assert (H0n : tokfin 0) by tokfin_tac.
   rewrite (run_S _ C_top _ (ST_err (@nil nat) _ _ _ _ _ _ _ _ _ _ H)). unfold arm_top. cbv zeta.
   (* the top-level loop: one iteration *)
   rewrite (stmt_list_unfold _ _ _ _ _ (ST_err (@nil nat) _ _ _ _ _ _ _ _ _ _ H)). cbv zeta.
@@ -2636,7 +2966,8 @@ Proof.
   set (sB := pop_ctx pass (RUN (S f) (slc KBegin) (push_ctx pass (cBlk KBegin) (finish_logical_line pass (next_token pass (push_ctx pass cTop (finish_logical_line pass s0))))))) in *.
   assert (He : nth_error T e = Some tEnd).
   { specialize (Htb (length (render ss)) tEnd). rewrite nth_error_app2, Nat.sub_diag in Htb by lia. exact (Htb eq_refl). }
-  assert (Hen : e < n) by (unfold e; lia). assert (Hen1 : S e < n) by (unfold e; lia). assert (Hen2 : S (S e) < n) by (unfold e; lia).
+  assert (Hen : tokfin e) by tokfin_tac. assert (Hen1 : tokfin (S e)) by (exists tDot; split; [exact HtD|reflexivity]).
+  assert (Hen2 : tokfin (S (S e))) by (exists RTT_Eof; split; [exact HtE|reflexivity]).
   rewrite (ST_cur_tt (@nil nat) _ _ _ _ _ _ _ _ _ _ _ H6 He). cbn [tEnd o_kw_end].
   pose proof (next_token_ST (@nil nat) _ _ _ _ _ _ _ _ _ _ H6 Hen) as H7. cbn [app] in H7.
   rewrite (ST_cur_tt (@nil nat) _ _ _ _ _ _ _ _ _ _ _ H7 HtD). cbn [tDot o_dot].
@@ -2667,8 +2998,9 @@ End Frag.
 
 Lemma render_plain ss : Forall plain (render ss).
 Proof.
-  revert ss. apply (stmts_mut (fun c => Forall plain (render_stmt c)) (fun ss => Forall plain (render ss)) (fun a => Forall plain (render_arms a)));
-    cbn [render render_stmt render_arms]; intros.
+  revert ss. apply (stmts_mut (fun c => Forall plain (render_stmt c)) (fun ss => Forall plain (render ss)) (fun a => Forall plain (render_arms a))
+                            (fun h => Forall plain (render_handlers h)));
+    cbn [render render_stmt render_arms render_handlers]; intros.
   all: repeat (first [ exact I | assumption | apply Forall_nil | apply Forall_cons | (apply Forall_app; split) ]).
 Qed.
 
@@ -2708,7 +3040,7 @@ Theorem fragment_parse_pass ss : wf ss = true ->
   let T := render_prog ss in
   let pass := seq 0 (length T) in
   ps_err pass (parse_pass pass [] T []) = None /\ pidx pass (parse_pass pass [] T []) = length pass
-  /\ ps_toks pass (parse_pass pass [] T []) = T
+  /\ ps_toks pass (parse_pass pass [] T []) = map fin T
   /\ exists el, ll_toks el = [] /\ pass_lines pass (parse_pass pass [] T []) = pexpected_prog ss ++ [el].
 Proof.
   intros Hwf T pass.
@@ -2731,7 +3063,7 @@ Proof.
   unfold parse_pass. set (f := run_fuel pass) in *. clearbody f.
   destruct (prog_run T P ss f _ _ _ _ _ Hwf H0 Ht0 Htb HtD HtE Ln Hf) as (mc' & last' & H).
   fold pass in H. set (s := run pass [] f C_top (ps_init pass T [])) in *.
-  split; [exact (ST_err_none T [] _ _ _ _ _ _ _ _ _ _ H)|]. split; [|split; [exact (ST_toks T [] _ _ _ _ _ _ _ _ _ _ H)|]].
+  split; [exact (ST_err_none T [] _ _ _ _ _ _ _ _ _ _ H)|]. split; [|split; [transitivity (mix T (length T)); [exact (ST_toks T [] _ _ _ _ _ _ _ _ _ _ H)|apply mix_all]|]].
   - transitivity (length T); [exact (ST_pidx T [] _ _ _ _ _ _ _ _ _ _ H)|unfold pass; rewrite seq_length; reflexivity].
   - exists (mkLine (lm_type mc') (lm_level mc') (lm_parent mc') []). split; [reflexivity|].
     etransitivity; [exact (pass_lines_ST T [] _ _ _ _ _ _ _ _ _ _ H)|]. f_equal.
@@ -2883,8 +3215,9 @@ Lemma pexpected_seg_ok : forall ss par d k li pre, length pre = li -> par_in pre
 Proof.
   apply (stmts_mut (fun c => forall par d k li sm pre, length pre = li -> par_in pre par -> seg_ok pre (sexpected par d k li sm c))
                    (fun ss => forall par d k li pre, length pre = li -> par_in pre par -> seg_ok pre (pexpected par d k li ss))
-                   Rarms);
-    cbn [sexpected pexpected]; cbv zeta.
+                   Rarms
+                   (fun h => forall par d k li pre, length pre = li -> par_in pre par -> seg_ok pre (hexpected par d k li h)));
+    cbn [sexpected pexpected hexpected]; cbv zeta.
   - intros par d k li sm pre Hl Hp. apply seg_ok_cons; [intros _; exact Hp|apply seg_ok_nil].
   - intros par d k li sm pre Hl Hp. apply seg_ok_cons; [intros _; exact Hp|apply seg_ok_nil].
   - intros b IHb par d k li sm pre Hl Hp. apply seg_ok_cons; [intros _; exact Hp|].
@@ -2902,6 +3235,11 @@ Proof.
     apply seg_ok_app; [apply IHb; [len_tac|apply par_in_app, Hp]|].
     apply seg_ok_cons; [intros _; do 2 apply par_in_app; exact Hp|].
     apply seg_ok_app; [apply IHc; [len_tac|do 3 apply par_in_app; exact Hp]|].
+    apply seg_ok_cons; [intros _; do 4 apply par_in_app; exact Hp|apply seg_ok_nil].
+  - intros b IHb h IHh par d k li sm pre Hl Hp. apply seg_ok_cons; [intros _; exact Hp|].
+    apply seg_ok_app; [apply IHb; [len_tac|apply par_in_app, Hp]|].
+    apply seg_ok_cons; [intros _; do 2 apply par_in_app; exact Hp|].
+    apply seg_ok_app; [apply IHh; [len_tac|do 3 apply par_in_app; exact Hp]|].
     apply seg_ok_cons; [intros _; do 4 apply par_in_app; exact Hp|apply seg_ok_nil].
   - (* if *) intros c IHc par d k li sm pre Hl Hp. apply seg_ok_cons; [intros _; exact Hp|].
     apply seg_ok_app; [|apply seg_ok_stray].
@@ -2957,6 +3295,12 @@ Proof.
     split.
     + apply seg_ok_cons; [intros _; exact Hp|]. apply seg_ok_app; [exact P1|exact B1].
     + intros pre1 He. apply B2. destruct He as [x ->]. exists x. repeat (progress (cbn [app]; rewrite <- ?app_assoc)). reflexivity.
+  - intros. apply seg_ok_nil.
+  - intros c IHc r IHr par d k li pre Hl Hp.
+    apply seg_ok_app.
+    + apply seg_ok_cons; [intros _; exact Hp|]. apply seg_ok_app; [|apply seg_ok_stray].
+      apply IHc; [len_tac|]. apply par_in_hdr; [exact Hl|do 4 right; left; reflexivity|discriminate].
+    + apply IHr; [len_tac|apply par_in_app, Hp].
 Qed.
 
 Lemma pexpected_prog_seg_ok ss : seg_ok [] (pexpected_prog ss).
@@ -2968,18 +3312,18 @@ Qed.
 Lemma filter_all {A} (p : A -> bool) l : Forall (fun x => p x = true) l -> filter p l = l.
 Proof. induction 1 as [|x l Hx _ IH]; cbn; [reflexivity|]. rewrite Hx, IH. reflexivity. Qed.
 
-Lemma cement_plain t : plain t -> cement t = t.
-Proof. destruct t; cbn; try reflexivity; contradiction. Qed.
+Lemma cement_fin t : plain t -> cement (fin t) = fin t.
+Proof. destruct t as [o| |k0|k0| | | | | | |]; cbn; try reflexivity; try contradiction. destruct k0; try contradiction. reflexivity. Qed.
 Lemma upd_nth_id {A} (f : A -> A) i : forall l, (forall x, In x l -> f x = x) -> upd_nth i f l = l.
 Proof.
   revert i. induction i as [|i IH]; intros [|a l] H; cbn; try reflexivity.
   - rewrite H by (left; reflexivity). reflexivity.
   - rewrite IH; [reflexivity|]. intros x Hx. apply H. right. exact Hx.
 Qed.
-Lemma cement_fold_plain T : Forall plain T -> forall pass, fold_left (fun ts p => upd_nth p cement ts) pass T = T.
+Lemma cement_fold_plain T : Forall (fun t => cement t = t) T -> forall pass, fold_left (fun ts p => upd_nth p cement ts) pass T = T.
 Proof.
   intros P. induction pass as [|p r IH]; cbn [fold_left]; [reflexivity|].
-  rewrite upd_nth_id; [exact IH|]. intros x Hx. apply cement_plain. exact (proj1 (Forall_forall _ _) P x Hx).
+  rewrite upd_nth_id; [exact IH|]. intros x Hx. exact (proj1 (Forall_forall _ _) P x Hx).
 Qed.
 Lemma directive_lines_plain : forall T k attr lv, Forall plain T -> directive_lines T k attr lv = [].
 Proof.
@@ -3003,7 +3347,7 @@ Proof. reflexivity. Qed.
    `end .` and the single Eof line (holding only the Eof token) at level 0 *)
 Theorem fragment_parse_file ss : wf ss = true ->
   let r := parse_file_model (render_prog ss) [] in
-  r_err r = None /\ r_lines r = expected_prog ss /\ r_toks r = render_prog ss.
+  r_err r = None /\ r_lines r = expected_prog ss /\ r_toks r = map fin (render_prog ss).
 Proof.
   intros Hwf. set (T := render_prog ss). pose proof (render_prog_plain ss) as P. fold T in P.
   unfold parse_file_model. rewrite (no_directives_single_identity_pass T (plain_no_directive T P)).
@@ -3013,7 +3357,9 @@ Proof.
   pose proof (parse_pass_lines_wf pass [] T [] (increasing_seq 0 (length T))) as (_ & Hnd & _).
   set (s := parse_pass pass [] T []) in *. clearbody s.
   rewrite He.
-  rewrite Htoks, (cement_fold_plain T P pass), (directive_lines_plain T 0 _ 0%N P).
+  assert (PF : Forall plain (map fin T)) by (apply Forall_map; eapply Forall_impl; [intros a Ha; apply fin_plain, Ha|exact P]).
+  assert (PC : Forall (fun t => cement t = t) (map fin T)) by (apply Forall_map; eapply Forall_impl; [intros a Ha; apply cement_fin, Ha|exact P]).
+  rewrite Htoks, (cement_fold_plain (map fin T) PC pass), (directive_lines_plain (map fin T) 0 _ 0%N PF).
   cbn [r_err r_lines r_toks]. split; [reflexivity|]. split; [|reflexivity].
   rewrite consolidate_nil_r. rewrite Hpl in *. clear Hpl.
   assert (E1 : consolidate_pass_lines [] (pexpected_prog ss ++ [el]) = consolidate_pass_lines [] (pexpected_prog ss)).
@@ -3029,8 +3375,9 @@ Proof.
                    (fun ss => forall par d k li, Forall (fun l => ll_type l <> LLT_Eof) (pexpected par d k li ss))
                    (fun a => forall par d k li pend, (forall i, Forall (fun l => ll_type l <> LLT_Eof) (pend i)) ->
                              Forall (fun l => ll_type l <> LLT_Eof) (arms_pre par d k li a pend)
-                             /\ forall i, Forall (fun l => ll_type l <> LLT_Eof) (arms_pend k li a pend i)));
-    cbn [sexpected pexpected arms_pre arms_pend]; cbv zeta; intros; rewrite ?arms_lines_eq.
+                             /\ forall i, Forall (fun l => ll_type l <> LLT_Eof) (arms_pend k li a pend i))
+                   (fun h => forall par d k li, Forall (fun l => ll_type l <> LLT_Eof) (hexpected par d k li h)));
+    cbn [sexpected pexpected arms_pre arms_pend hexpected]; cbv zeta; intros; rewrite ?arms_lines_eq.
   all: try match goal with IHa : forall par d k li pend, _ -> _ /\ _ |- Forall _ (_ :: arms_pre ?par ?d ?k ?li ?a ?pend ++ _) =>
              destruct (IHa par d k li pend (fun _ => Forall_nil _)) as [A1 A2] end.
   all: try match goal with IHa : forall par d k li pend, _ -> _ /\ _, Hp : forall i, Forall _ (?pend i) |- _ /\ _ =>
@@ -3117,14 +3464,14 @@ Lemma pexpected_child_free : forall ss d k li, child_free ss = true -> Forall (f
 Proof.
   apply (stmts_mut (fun c => forall d k li sm, child_free_stmt c = true -> Forall (fun l => ll_parent l = None) (sexpected None d k li sm c))
                    (fun ss => forall d k li, child_free ss = true -> Forall (fun l => ll_parent l = None) (pexpected None d k li ss))
-                   (fun _ => True));
+                   (fun _ => True) (fun _ => True));
     cbn [sexpected pexpected child_free_stmt child_free]; cbv zeta; intros; try exact I; try discriminate.
   all: repeat match goal with H : _ && _ = true |- _ => apply andb_prop in H; destruct H end.
   all: repeat (first [ apply Forall_nil | (apply Forall_cons; [reflexivity|]) | (apply Forall_app; split) | solve [auto] ]).
 Qed.
 Lemma child_free_wf : forall ss, child_free ss = true -> wf ss = true.
 Proof.
-  apply (stmts_mut (fun c => child_free_stmt c = true -> wf_stmt c = true) (fun ss => child_free ss = true -> wf ss = true) (fun _ => True));
+  apply (stmts_mut (fun c => child_free_stmt c = true -> wf_stmt c = true) (fun ss => child_free ss = true -> wf ss = true) (fun _ => True) (fun _ => True));
     cbn [child_free_stmt child_free wf_stmt wf]; intros; try exact I; try discriminate; try reflexivity.
   all: repeat match goal with H : _ && _ = true |- _ => apply andb_prop in H; destruct H end.
   all: repeat (apply andb_true_intro; split); auto.
@@ -3171,6 +3518,18 @@ Example fragment_case_lines :
      (LLT_CaseHeader, 1%N, None, [22; 23; 24]); (LLT_Unknown, 1%N, None, [25; 26]);
      (LLT_Unknown, 0%N, None, [27; 28]); (LLT_Eof, 0%N, None, [29])].
 Proof. vm_compute. reflexivity. Qed.
+(* exception handlers: `on` (lexed as IdentifierOrKeyword) is re-typed to a keyword; the body of a handler is a child line *)
+Example fragment_handlers :
+  let ss := SCons (TTryOn (SCons TSimple SNil) (HCons TSimple (HCons (TIf TAssign) HNil))) SNil in
+  wf ss = true /\
+  map (fun l => (ll_level l, ll_parent l, ll_toks l)) (r_lines (parse_file_model (render_prog ss) []))
+  = [(0%N, None, [0]); (1%N, None, [1]); (2%N, None, [2; 3]); (1%N, None, [4]); (2%N, None, [5; 6; 7; 8; 9]);
+     (1%N, Some (4, 9), [10; 11]); (2%N, None, [12; 13; 14; 15; 16]); (1%N, Some (6, 16), [17; 18; 19]);
+     (1%N, Some (7, 19), [20; 21; 22; 23]); (1%N, None, [24; 25]); (0%N, None, [26; 27]); (0%N, None, [28])]
+  /\ nth_error (render_prog ss) 5 = Some (RTT_IdentifierOrKeyword KK_On)
+  /\ nth_error (r_toks (parse_file_model (render_prog ss) [])) 5 = Some (RTT_Keyword KK_On)
+  /\ r_toks (parse_file_model (render_prog ss) []) = map retype (render_prog ss).
+Proof. repeat split; vm_compute; reflexivity. Qed.
 (* non-vacuity: all statement forms, nested *)
 Example fragment_example :
   let ss := SCons TSimple (SCons (TRepeat (SCons TAssign (SCons (TTry SNil (SCons TSimple SNil)) SNil)))
